@@ -1,33 +1,40 @@
 """C05 -- histogram counts and reverse indices partition the binned data; the
 compiled and the pure-Python engines return identical arrays."""
 import ast
+import copy
+import hashlib
 
-from vcheck import cfront, rules, sibling
-from vcheck.core import PyRepo, AnalysisError, call_name, dotted_name, kwarg, norm, walk_no_nested
+from vcheck import cfront, pat, rules, sibling
+from vcheck.cfg import eval_test, NOTNONE
+from vcheck.core import PyRepo, AnalysisError, call_name, const_value, dotted_name, kwarg, norm, walk_no_nested
 from vcheck.cstr import parse_tuple_format
 from vcheck.ceffects import parse_tuple_binding
 from vcheck.rules import cfg_of
 
 MANIFEST = dict(
-    text="Sibling cross-check plus structural rules (not a behavioural proof): (1) the C engine (clang AST) and the pure-Python engine "
-         "are lowered to guarded effects (array role, index term, value term, guard atoms, loop descriptors; roles by shared argument "
-         "position, affine induction variables in closed form) and must have equal effect sets -- the two engines then perform the same "
-         "stores under the same conditions for every input, which decides 'identical arrays' up to libm/float conversion; (2) count/index "
-         "pairing: one increment of hist[b] per datum exactly under 0 <= b < nbin with b = trunc((x-min)/binsize), every sorted index "
-         "stored at offset i+nbin+1, bin offsets filled for (previous bin, b], and the tail fill of the offsets past the last occupied "
-         "bin must be the offset just past the last *counted* datum (not the end of all data); (3) ABI agreement between the call site "
-         "and the C casts / PyArg_ParseTuple format; (4) inclusive min/max filter on a stable argsort; (5) bin count / bin size "
-         "derivations and pass-through of the public wrapper.",
+    text="Sibling cross-check plus value-flow rules (not a behavioural proof): (1) the C engine (clang AST) and the pure-Python engine "
+         "are desugared (helpers inlined, for/continue/early return/compound assignment/slice and vectorised counting idioms rewritten "
+         "to assignments, stores, if and while), lowered to guarded effects (array role, index term, value term, guard atoms, loop "
+         "descriptors; roles by shared argument position, affine induction variables in closed form) which are renamed by content "
+         "(loop counters by depth, loop carried state by its update rule) and must form equal effect sets with equal initial state -- "
+         "the two engines then perform the same stores under the same conditions for every input, which decides 'identical arrays' up "
+         "to libm/float conversion; (2) count/index pairing on those effects: one increment of hist[b] per datum exactly under "
+         "0 <= b < nbin with b = trunc((x-min)/binsize), every sorted index stored at offset i+nbin+1, bin offsets filled for "
+         "(previous bin, b], and the tail fill of the offsets past the last occupied bin must be the offset just past the last "
+         "*counted* datum (not the end of all data); (3) ABI agreement between the values that reach the engine calls on every path and "
+         "the C casts / PyArg_ParseTuple format; (4) inclusive min/max filter on a stable argsort, decided per path and per "
+         "given/absent limit; (5) bin count / bin size derivations and pass-through of the public wrapper.",
     note="Not decided: counts for particular data, floating-point rounding at bin edges. Assumes LP64 (argsort/arange give int64). "
          "Trusted: clang AST, sympy normaliser, numpy argsort(kind='stable').",
-    technique="static analysis: cross-language sibling comparison of guarded-effect normal forms (clang AST vs Python ast), structural pairing rules, format/ABI agreement",
+    technique="static analysis: cross-language sibling comparison of guarded-effect normal forms (clang AST vs Python ast), path-sensitive value flow over the wrapper functions, format/ABI agreement",
 )
 
 ST = "esutil.stat.util."
 
 
-# rules that keep their verdict however the code is laid out (decided by term equality, effect analysis or dominance over
-# resolved calls); every other rule of this check is a template rule (vcheck.core.Check.obt)
+# rules that keep their verdict however the code is laid out (decided by term equality, effect analysis or per-path value
+# flow; they answer "not recognised" themselves when a construct cannot be identified); every other rule of this check is
+# a template rule (vcheck.core.Check.obt)
 SEMANTIC = ('R05.1', 'R05.2', 'R05.4')
 
 
@@ -45,8 +52,909 @@ def run(chk):
     cfn = cdecls["PyCHist_chist"]
     chk.analysed_unit(py.qualname)
     chk.analysed_unit("PyCHist_chist")
-    # ---- R05.1 isomorphism -----------------------------------------------------
-    A, B = sibling.compare(py.node, cfn)
+    # ---- R05.1 isomorphism, R05.2 count / index pairing ---------------------------
+    engines(chk, repo, py, cfn)
+    # ---- R05.3 ABI ---------------------------------------------------------------
+    abi(chk, repo, cfn)
+    # ---- R05.4 / R05.5 ------------------------------------------------------------
+    limits(chk, repo)
+    derivations(chk, repo)
+
+
+# =============================================================================
+# C engine: desugaring of the clang AST before the sibling lowering
+# =============================================================================
+# The lowering of vcheck.sibling knows assignments, stores, if, while / for and ++/--.  Everything below is rewritten into
+# those on a copy of the function: helper functions of the same file are inlined at their call statements, `a op= b`
+# becomes `a = a op b`, comma expressions in statement position are split, `for` becomes init + while (body; inc), a guard
+# `if (c) continue;` becomes `if (!c) { rest }` (negation pushed through && || and the relational operators), element
+# pointers kept in a local (`p = (T *) PyArray_GETPTR1(a, i); ... *p`) and doubles that are only truncated later
+# (`t = x / y; b = (npy_int64) t`) are substituted forward into their uses.
+INT_TYPES = ("npy_int64", "int64_t", "long", "npy_intp", "int", "long long", "Py_ssize_t", "ssize_t")
+_FLIP = {"<": ">=", ">=": "<", ">": "<=", "<=": ">", "==": "!=", "!=": "=="}
+
+
+def _cu(n):
+    while isinstance(n, dict) and n.get("kind") in ("ImplicitCastExpr", "ParenExpr", "ConstantExpr") and n.get("inner"):
+        n = n["inner"][0]
+    return n
+
+
+def _c_neg(c):
+    u = _cu(c)
+    if u.get("kind") == "BinaryOperator":
+        op = u.get("opcode")
+        if op in ("&&", "||"):
+            return {"kind": "BinaryOperator", "opcode": "||" if op == "&&" else "&&", "type": u.get("type"), "line": u.get("line"),
+                    "inner": [_c_neg(u["inner"][0]), _c_neg(u["inner"][1])]}
+        if op in _FLIP:
+            return dict(u, opcode=_FLIP[op], inner=copy.deepcopy(u["inner"]))
+    if u.get("kind") == "UnaryOperator" and u.get("opcode") == "!":
+        return copy.deepcopy(u["inner"][0])
+    return {"kind": "UnaryOperator", "opcode": "!", "type": {"qualType": "int"}, "line": u.get("line"), "inner": [copy.deepcopy(c)]}
+
+
+def _c_block(n):
+    """statement list of a loop / if body"""
+    if not isinstance(n, dict) or not n.get("kind"):
+        return []
+    return list(n.get("inner", []) or []) if n["kind"] == "CompoundStmt" else [n]
+
+
+def _c_compound(stmts, line=None):
+    return {"kind": "CompoundStmt", "line": line, "inner": stmts}
+
+
+def _c_refs(n):
+    return {x.get("referencedDecl", {}).get("name") for x in cfront.walk(n) if x.get("kind") == "DeclRefExpr"}
+
+
+def _c_assigned(n):
+    """names of the scalars assigned somewhere inside n"""
+    out = set()
+    for x in cfront.walk(n):
+        k = x.get("kind")
+        if (k == "BinaryOperator" and x.get("opcode") == "=") or k == "CompoundAssignOperator" or (k == "UnaryOperator" and x.get("opcode") in ("++", "--")):
+            l = _cu(x["inner"][0])
+            if l.get("kind") == "DeclRefExpr":
+                out.add(l.get("referencedDecl", {}).get("name"))
+        elif k == "VarDecl" and x.get("name"):
+            out.add(x["name"])
+    return out
+
+
+def _c_is_continue(n):
+    b = _c_block(n)
+    return len(b) == 1 and b[0].get("kind") == "ContinueStmt"
+
+
+def _c_elim_continue(stmts):
+    for i, st in enumerate(stmts):
+        if st.get("kind") == "IfStmt" and len([c for c in st["inner"] if c.get("kind")]) == 2 and _c_is_continue(st["inner"][1]):
+            rest = _c_elim_continue(stmts[i + 1:])
+            return stmts[:i] + [{"kind": "IfStmt", "line": st.get("line"), "inner": [_c_neg(st["inner"][0]), _c_compound(rest, st.get("line"))]}]
+    return stmts
+
+
+def _c_split_comma(n):
+    u = _cu(n)
+    if isinstance(u, dict) and u.get("kind") == "BinaryOperator" and u.get("opcode") == ",":
+        return _c_split_comma(u["inner"][0]) + _c_split_comma(u["inner"][1])
+    return [n] if isinstance(n, dict) and n.get("kind") else []
+
+
+class _CPrep:
+    def __init__(self, helper):
+        self.helper = helper          # name -> function decl of the same translation unit (or None)
+        self.depth = 0
+
+    # -- statements -------------------------------------------------------------
+    def stmts(self, nodes):
+        out = []
+        for st in nodes:
+            out.extend(self.stmt(st))
+        return out
+
+    def stmt(self, st):
+        k = st.get("kind")
+        if k == "CompoundStmt":
+            return self.stmts(st.get("inner", []) or [])
+        if k == "BinaryOperator" and st.get("opcode") == ",":
+            return self.stmts(_c_split_comma(st))
+        if k == "CompoundAssignOperator":
+            op = st.get("opcode", "")[:-1]
+            lhs, rhs = st["inner"]
+            return [{"kind": "BinaryOperator", "opcode": "=", "type": st.get("type"), "line": st.get("line"),
+                     "inner": [lhs, {"kind": "BinaryOperator", "opcode": op, "type": st.get("computeResultType", st.get("type")), "line": st.get("line"),
+                                     "inner": [{"kind": "ImplicitCastExpr", "type": st.get("type"), "line": st.get("line"), "inner": [copy.deepcopy(lhs)]}, rhs]}]}]
+        if k == "IfStmt":
+            inner = st["inner"]
+            acc = []
+            sibling.find_calls(inner[0], "PyArg_ParseTuple", acc)
+            if acc or st.get("hasInit") or st.get("hasVar"):
+                return [st]
+            new = [inner[0], _c_compound(self.stmts(_c_block(inner[1])), st.get("line"))]
+            if len(inner) > 2 and inner[2].get("kind"):
+                new.append(_c_compound(self.stmts(_c_block(inner[2])), st.get("line")))
+            return [dict(st, inner=new)]
+        if k == "ForStmt":
+            init, _, test, inc, body = st["inner"]
+            if not (isinstance(test, dict) and test.get("kind")):
+                raise NotImplementedError("for without a condition")
+            b = _c_elim_continue(self.stmts(_c_block(body))) + self.stmts(_c_split_comma(inc))
+            return self.stmts(_c_split_comma(init)) + [{"kind": "WhileStmt", "line": st.get("line"), "inner": [test, _c_compound(b, st.get("line"))]}]
+        if k == "WhileStmt":
+            # `continue` skips the rest of the body, which is all an `if (!c) { rest }` does
+            return [dict(st, inner=[st["inner"][0], _c_compound(_c_elim_continue(self.stmts(_c_block(st["inner"][1]))), st.get("line"))])]
+        if k == "CallExpr":
+            return self.call(st)
+        return [st]
+
+    # -- helper calls -----------------------------------------------------------
+    def call(self, st):
+        c = _cu(st["inner"][0])
+        rd = c.get("referencedDecl", {}) if c.get("kind") == "DeclRefExpr" else {}
+        name = rd.get("name")
+        if rd.get("kind") != "FunctionDecl" or not name or name.startswith(("Py", "_Py", "PyArray", "Npy", "npy_")):
+            return [st]
+        d = self.helper(name)
+        if d is None:
+            return [st]
+        if self.depth > 3:
+            raise NotImplementedError("helper calls nested too deeply at %s" % name)
+        params = cfront.params_of(d)
+        args = st["inner"][1:]
+        body = copy.deepcopy(cfront.body_of(d))
+        if len(params) != len(args) or set(params) & _c_assigned(body):
+            raise NotImplementedError("helper %s assigns its parameters" % name)
+        amap = dict(zip(params, args))
+        locs = {x["name"] for x in cfront.walk(body) if x.get("kind") == "VarDecl" and x.get("name")}
+
+        def rewrite(n):
+            if not isinstance(n, dict):
+                return
+            for i, ch in enumerate(n.get("inner", []) or []):
+                if isinstance(ch, dict) and ch.get("kind") == "DeclRefExpr":
+                    nm = ch.get("referencedDecl", {}).get("name")
+                    if ch.get("referencedDecl", {}).get("kind") == "ParmVarDecl" and nm in amap:
+                        n["inner"][i] = {"kind": "ParenExpr", "type": ch.get("type"), "line": ch.get("line"), "inner": [copy.deepcopy(amap[nm])]}
+                        continue
+                    if nm in locs:
+                        ch["referencedDecl"] = dict(ch["referencedDecl"], name="%s__%s" % (name, nm))
+                if isinstance(ch, dict) and ch.get("kind") == "VarDecl" and ch.get("name") in locs:
+                    ch["name"] = "%s__%s" % (name, ch["name"])
+                rewrite(ch)
+        rewrite(body)
+        inner = list(body.get("inner", []) or [])
+        if inner and inner[-1].get("kind") == "ReturnStmt" and not inner[-1].get("inner"):
+            inner = inner[:-1]
+        if any(x.get("kind") == "ReturnStmt" for s_ in inner for x in cfront.walk(s_)):
+            raise NotImplementedError("helper %s returns from the middle" % name)
+        self.depth += 1
+        try:
+            return self.stmts(inner)
+        finally:
+            self.depth -= 1
+
+
+def _c_forward(stmts, fn_body):
+    """forward substitution of element pointers and of doubles that are only truncated later (see the section comment)"""
+    types = {x["name"]: x.get("type", {}).get("qualType", "") for x in cfront.walk(fn_body) if x.get("kind") == "VarDecl" and x.get("name")}
+    ptr = set()
+    for x in cfront.walk(fn_body):
+        if x.get("kind") == "BinaryOperator" and x.get("opcode") == "=":
+            l = _cu(x["inner"][0])
+            if l.get("kind") == "DeclRefExpr" and "*" in types.get(l["referencedDecl"].get("name"), ""):
+                acc = []
+                sibling.find_calls(x["inner"][1], "PyArray_BYTES", acc)
+                if acc:
+                    ptr.add(l["referencedDecl"]["name"])
+    dbl = set()
+    for x in cfront.walk(fn_body):
+        if x.get("kind") == "CStyleCastExpr" and x.get("type", {}).get("qualType") in INT_TYPES:
+            u = _cu(x["inner"][0])
+            if u.get("kind") == "DeclRefExpr" and types.get(u["referencedDecl"].get("name")) in ("double", "float", "npy_float64"):
+                dbl.add(u["referencedDecl"]["name"])
+    if not ptr and not dbl:
+        return stmts
+
+    def use(n, sub):
+        """substitute inside expression n (in place)"""
+        if not isinstance(n, dict):
+            return
+        kids = n.get("inner", []) or []
+        for i, ch in enumerate(kids):
+            if not isinstance(ch, dict):
+                continue
+            if n.get("kind") == "BinaryOperator" and n.get("opcode") == "=" and i == 0 and _cu(ch).get("kind") == "DeclRefExpr":
+                continue
+            u = _cu(ch)
+            if u.get("kind") == "DeclRefExpr":
+                nm = u.get("referencedDecl", {}).get("name")
+                if nm in sub and (nm in ptr or (n.get("kind") == "CStyleCastExpr" and n.get("type", {}).get("qualType") in INT_TYPES)):
+                    kids[i] = {"kind": "ParenExpr", "type": u.get("type"), "line": u.get("line"), "inner": [copy.deepcopy(sub[nm])]}
+                    continue
+            use(ch, sub)
+
+    def kill(sub, names):
+        for k in [k for k, v in sub.items() if k in names or (_c_refs(v) & names)]:
+            del sub[k]
+
+    def block(nodes, sub):
+        out = []
+        for st in nodes:
+            k = st.get("kind")
+            if k == "BinaryOperator" and st.get("opcode") == "=" and _cu(st["inner"][0]).get("kind") == "DeclRefExpr":
+                nm = _cu(st["inner"][0])["referencedDecl"].get("name")
+                use(st, sub)
+                kill(sub, {nm})
+                if nm in ptr or nm in dbl:
+                    if nm not in _c_refs(st["inner"][1]):
+                        sub[nm] = st["inner"][1]
+                    if nm in ptr:
+                        continue
+                out.append(st)
+            elif k == "IfStmt":
+                inner = st["inner"]
+                w = {"inner": [inner[0]]}
+                use(w, sub)
+                new = [w["inner"][0]] + [_c_compound(block(_c_block(b), dict(sub)), st.get("line")) for b in inner[1:] if b.get("kind")]
+                kill(sub, _c_assigned(st))
+                out.append(dict(st, inner=new))
+            elif k == "WhileStmt":
+                kill(sub, _c_assigned(st))
+                w = {"inner": [st["inner"][0]]}
+                use(w, sub)
+                out.append(dict(st, inner=[w["inner"][0], _c_compound(block(_c_block(st["inner"][1]), dict(sub)), st.get("line"))]))
+            else:
+                use(st, sub)
+                kill(sub, _c_assigned(st))
+                out.append(st)
+        return out
+    return block(stmts, {})
+
+
+_c_helper_cache = {}
+
+
+def _c_helper_loader(tu):
+    """name -> definition of a function of the same source file that is not part of the filtered dump of `tu`"""
+    def load(name):
+        key = (tu, name)
+        if key not in _c_helper_cache:
+            d = None
+            try:
+                spec = dict(cfront.TUS[tu], filt=name)
+                spec.pop("own_only", None)
+                cfront.TUS.setdefault("%s.%s" % (tu, name), spec)
+                d = cfront.functions(cfront.load_tu("%s.%s" % (tu, name))).get(name)
+            except AnalysisError:
+                d = None
+            _c_helper_cache[key] = d
+        return _c_helper_cache[key]
+    return load
+
+
+def c_prepare(decl, tu="chist"):
+    """copy of the C function with the constructs listed above rewritten for the sibling lowering"""
+    d = copy.deepcopy(decl)
+    body = cfront.body_of(d)
+    stmts = _CPrep(_c_helper_loader(tu)).stmts(body.get("inner", []) or [])
+    stmts = _c_forward(stmts, _c_compound(stmts))
+    body["inner"] = stmts
+    return d
+
+
+# =============================================================================
+# Python engine: desugaring of the function body before the sibling lowering
+# =============================================================================
+# The lowering knows name / item assignments (scalar slice fills with both bounds included), augmented assignments, if and
+# while over + - * / comparisons, and / or, item reads, .size and np.int64().  Rewritten into those, on a copy:
+#   for i in range(..) / for x in a / for k, x in enumerate(a, start)      ->  counters + while
+#   if c: continue                                                          ->  if not c: <rest of the body>   (negation pushed inwards)
+#   if c: ...; return   followed by more code                              ->  if c: ... else: <more code>
+#   helper(...) statements and helper(...) expressions of the same module   ->  inlined (locals prefixed, parameters substituted)
+#   a[lo:hi] = <array>, a[lo:] = v                                          ->  element loop / explicit upper bound
+#   vectorised counting: b = ((data[s] - lo) / w).astype(np.int64); (k,) = np.where(mask); hist += np.bincount(b[k], minlength=n)
+#   (also b[mask], np.add.at(hist, b, 1))                                   ->  element loop  `if mask_i: hist[b_i] += 1`
+#   len(a)                                                                   ->  a.size
+
+def _n(s):
+    return ast.parse(s, mode="eval").body
+
+
+def _name(id_):
+    return ast.Name(id=id_, ctx=ast.Load())
+
+
+def _py_neg(t):
+    if isinstance(t, ast.BoolOp):
+        return ast.BoolOp(op=ast.And() if isinstance(t.op, ast.Or) else ast.Or(), values=[_py_neg(v) for v in t.values])
+    if isinstance(t, ast.UnaryOp) and isinstance(t.op, ast.Not):
+        return copy.deepcopy(t.operand)
+    if isinstance(t, ast.Compare) and len(t.ops) == 1:
+        flip = {ast.Lt: ast.GtE, ast.GtE: ast.Lt, ast.Gt: ast.LtE, ast.LtE: ast.Gt, ast.Eq: ast.NotEq, ast.NotEq: ast.Eq, ast.Is: ast.IsNot, ast.IsNot: ast.Is}
+        if type(t.ops[0]) in flip:
+            return ast.Compare(left=copy.deepcopy(t.left), ops=[flip[type(t.ops[0])]()], comparators=copy.deepcopy(t.comparators))
+    raise NotImplementedError("cannot negate the test `%s`" % norm(t))
+
+
+class _Vec:
+    """an array value known element by element: position i in [0, length) holds elem(i); with a guard only the positions
+    where guard(i) holds are present (order kept)"""
+
+    def __init__(self, length, elem, guard=None, mask=False):
+        self.length, self.elem, self.guard, self.mask = length, elem, guard, mask
+
+
+class _Rename(ast.NodeTransformer):
+    def __init__(self, names, subst):
+        self.names, self.subst = names, subst
+
+    def visit_Name(self, n):
+        if n.id in self.subst:
+            return copy.deepcopy(self.subst[n.id])
+        if n.id in self.names:
+            return ast.Name(id=self.names[n.id], ctx=n.ctx)
+        return n
+
+
+class _PyPrep:
+    def __init__(self, repo, fi):
+        self.repo, self.fi = repo, fi
+        self.k = 0
+        self.vec = {}
+        self.depth = 0
+        fn = fi.node
+        used = set()
+        for x in ast.walk(fn):
+            if isinstance(x, ast.Subscript) and isinstance(x.value, ast.Name):
+                used.add(x.value.id)
+            elif isinstance(x, ast.Attribute) and x.attr == "size" and isinstance(x.value, ast.Name):
+                used.add(x.value.id)
+            elif isinstance(x, ast.For):
+                for y in ast.walk(x.iter):
+                    if isinstance(y, ast.Name):
+                        used.add(y.id)
+        self.arrays = used & set(fi.params)
+
+    def fresh(self, p):
+        self.k += 1
+        return "__%s%d" % (p, self.k)
+
+    def run(self):
+        fn = copy.deepcopy(self.fi.node)
+        fn.body = self.block(fn.body, False, True)
+        return ast.fix_missing_locations(fn)
+
+    # -- statement lists --------------------------------------------------------
+    def block(self, stmts, in_loop, top):
+        out = []
+        stmts = [s for s in stmts if not (isinstance(s, ast.Expr) and isinstance(s.value, ast.Constant)) and not isinstance(s, ast.Pass)]
+        for i, st in enumerate(stmts):
+            rest = stmts[i + 1:]
+            if isinstance(st, ast.If) and not st.orelse and st.body and isinstance(st.body[-1], ast.Continue) and in_loop:
+                if len(st.body) != 1:
+                    raise NotImplementedError("statements before continue")
+                out.append(ast.If(test=self.expr(_py_neg(st.test)), body=self.block(rest, in_loop, top), orelse=[]))
+                return out
+            if isinstance(st, ast.If) and top and not st.orelse and st.body and _bare_return(st.body[-1]) and rest:
+                out.append(ast.If(test=self.expr(st.test), body=self.block(st.body[:-1], in_loop, False), orelse=self.block(rest, in_loop, True)))
+                return out
+            if _bare_return(st) and top and not in_loop:
+                return out                       # the rest is dead code
+            out.extend(self.stmt(st, in_loop, rest))
+        return out
+
+    # -- expressions ------------------------------------------------------------
+    def expr(self, e):
+        """len(a) -> a.size; calls to expression helpers of the module are expanded"""
+        prep = self
+
+        class T(ast.NodeTransformer):
+            def visit_Call(self, c):
+                self.generic_visit(c)
+                if isinstance(c.func, ast.Name) and c.func.id == "len" and len(c.args) == 1 and not c.keywords:
+                    return self.visit(ast.Attribute(value=c.args[0], attr="size", ctx=ast.Load()))
+                x = prep.expr_helper(c)
+                return x if x is not None else c
+
+            # an array known element by element (its assignment was not emitted) read in a scalar context
+            def visit_Subscript(self, n):
+                if isinstance(n.value, ast.Name) and n.value.id in prep.vec and not isinstance(n.slice, (ast.Slice, ast.Tuple)) and prep.vexpr(n.slice) is None:
+                    v = prep.vec[n.value.id]
+                    if v.guard is not None:
+                        raise NotImplementedError("element of the filtered array `%s`" % n.value.id)
+                    return v.elem(self.visit(n.slice))
+                return self.generic_visit(n)
+
+            def visit_Attribute(self, n):
+                if n.attr == "size" and isinstance(n.value, ast.Name) and n.value.id in prep.vec:
+                    if prep.vec[n.value.id].guard is not None:
+                        raise NotImplementedError("size of the filtered array `%s`" % n.value.id)
+                    return copy.deepcopy(prep.vec[n.value.id].length)
+                return self.generic_visit(n)
+
+            def visit_Name(self, n):
+                if isinstance(n.ctx, ast.Load) and n.id in prep.vec:
+                    raise NotImplementedError("array `%s` used as a whole" % n.id)
+                return n
+        return T().visit(copy.deepcopy(e))
+
+    def helper(self, call):
+        if isinstance(call, ast.Call) and isinstance(call.func, ast.Name):
+            g = self.repo.funcs.get("%s.%s" % (self.fi.module.name, call.func.id))
+            if g is not None and g.cls is None and g.node is not self.fi.node:
+                return g
+        return None
+
+    def bind(self, g, call):
+        if any(isinstance(a, ast.Starred) for a in call.args) or any(k.arg is None for k in call.keywords) or any(p.startswith("*") for p in g.params):
+            raise NotImplementedError("call of %s with star arguments" % g.name)
+        b = dict(zip(g.params, [self.expr(a) for a in call.args]))
+        for k in call.keywords:
+            b[k.arg] = self.expr(k.value)
+        for p in g.params:
+            if p not in b:
+                if p not in g.defaults:
+                    raise NotImplementedError("argument %s of %s missing" % (p, g.name))
+                b[p] = copy.deepcopy(g.defaults[p])
+        assigned = {t.id for t in ast.walk(g.node) if isinstance(t, ast.Name) and isinstance(t.ctx, ast.Store)}
+        # `a += <array>` on an array parameter updates the caller's array in place: not a rebinding
+        inplace = {x.target.id for x in ast.walk(g.node) if isinstance(x, ast.AugAssign) and isinstance(x.target, ast.Name)
+                   and isinstance(b.get(x.target.id), ast.Name) and b[x.target.id].id in self.arrays}
+        rebound = {t.id for x in ast.walk(g.node) if not isinstance(x, ast.AugAssign) for t in ast.iter_child_nodes(x) if isinstance(t, ast.Name) and isinstance(t.ctx, ast.Store)}
+        rebound |= {t.id for x in ast.walk(g.node) if isinstance(x, (ast.Tuple, ast.List)) and isinstance(getattr(x, "ctx", None), ast.Store) for t in ast.walk(x) if isinstance(t, ast.Name)}
+        if (assigned - (inplace - rebound)) & set(g.params):
+            raise NotImplementedError("helper %s assigns its parameters" % g.name)
+        assigned -= set(g.params)
+        return b, {v: "%s__%s" % (g.name, v) for v in assigned}
+
+    def expr_helper(self, call):
+        g = self.helper(call)
+        if g is None:
+            return None
+        body = [s for s in g.node.body if not (isinstance(s, ast.Expr) and isinstance(s.value, ast.Constant))]
+        if not body or not isinstance(body[-1], ast.Return) or body[-1].value is None:
+            return None
+        if not all(isinstance(s, ast.Assign) and len(s.targets) == 1 and isinstance(s.targets[0], ast.Name) for s in body[:-1]):
+            return None
+        sd = rules.single_defs(g.node)
+        if any(s.targets[0].id not in sd for s in body[:-1]):
+            return None
+        b, _ = self.bind(g, call)
+        return self.expr(_Rename({}, b).visit(rules.expand(body[-1].value, g.node)))
+
+    # -- element-wise view of array expressions ------------------------------------
+    def vexpr(self, e):
+        if isinstance(e, ast.Name):
+            if e.id in self.vec:
+                return self.vec[e.id]
+            if e.id in self.arrays:
+                return _Vec(ast.Attribute(value=_name(e.id), attr="size", ctx=ast.Load()), lambda i, a=e.id: ast.Subscript(value=_name(a), slice=i, ctx=ast.Load()))
+            return None
+        if isinstance(e, ast.Subscript):
+            if isinstance(e.slice, ast.Constant) and e.slice.value == 0 and isinstance(e.value, ast.Call) and call_name(e.value) in ("where", "nonzero") and len(e.value.args) == 1:
+                return self.selection(e.value)
+            if isinstance(e.slice, (ast.Slice, ast.Tuple)):
+                return None
+            idx = self.vexpr(e.slice)
+            if idx is None:
+                return None
+            base = self.vexpr(e.value)
+            if base is None:
+                raise NotImplementedError("array index into `%s`" % norm(e.value))
+            if idx.mask:
+                return _Vec(base.length, base.elem, _and(base.guard, idx.elem), base.mask)
+            if base.guard is not None:
+                raise NotImplementedError("index into a filtered array")
+            return _Vec(idx.length, lambda i, b=base, x=idx: b.elem(x.elem(i)), idx.guard, base.mask)
+        if isinstance(e, ast.BinOp) and isinstance(e.op, (ast.Add, ast.Sub, ast.Mult, ast.Div, ast.BitAnd)):
+            l, r = self.vexpr(e.left), self.vexpr(e.right)
+            if l is None and r is None:
+                return None
+            v = l or r
+            if any(x is not None and x.guard is not None for x in (l, r)):
+                raise NotImplementedError("arithmetic on a filtered array")
+            le = l.elem if l is not None else (lambda i, x=e.left: copy.deepcopy(x))
+            re_ = r.elem if r is not None else (lambda i, x=e.right: copy.deepcopy(x))
+            if isinstance(e.op, ast.BitAnd):
+                if not ((l is None or l.mask) and (r is None or r.mask)):
+                    raise NotImplementedError("& of non-boolean arrays")
+                return _Vec(v.length, lambda i: ast.BoolOp(op=ast.And(), values=[le(i), re_(i)]), None, True)
+            return _Vec(v.length, lambda i, op=e.op: ast.BinOp(left=le(i), op=op, right=re_(i)))
+        if isinstance(e, ast.Compare) and len(e.ops) == 1:
+            l, r = self.vexpr(e.left), self.vexpr(e.comparators[0])
+            if l is None and r is None:
+                return None
+            v = l or r
+            if any(x is not None and x.guard is not None for x in (l, r)):
+                raise NotImplementedError("comparison of a filtered array")
+            le = l.elem if l is not None else (lambda i, x=e.left: copy.deepcopy(x))
+            re_ = r.elem if r is not None else (lambda i, x=e.comparators[0]: copy.deepcopy(x))
+            return _Vec(v.length, lambda i, op=e.ops[0]: ast.Compare(left=le(i), ops=[op], comparators=[re_(i)]), None, True)
+        if isinstance(e, ast.Call):
+            f = e.func
+            if isinstance(f, ast.Name) and f.id == "len":
+                return None
+            if isinstance(f, ast.Attribute) and f.attr == "astype" and len(e.args) == 1:
+                v = self.vexpr(f.value)
+                if v is None:
+                    return None
+                t = norm(e.args[0])
+                if t in INT64 or t == "int":
+                    return _Vec(v.length, lambda i, v=v: ast.Call(func=_n("np.int64"), args=[v.elem(i)], keywords=[]), v.guard)
+                if t in FLOAT64:
+                    return v
+                raise NotImplementedError("astype(%s)" % t)
+            if call_name(e) == "logical_and" and len(e.args) == 2:
+                return self.vexpr(ast.BinOp(left=e.args[0], op=ast.BitAnd(), right=e.args[1]))
+            if call_name(e) == "flatnonzero" and len(e.args) == 1:
+                return self.selection(e)
+            if any(self.vexpr(a) is not None for a in e.args if not isinstance(a, ast.Starred)) and dotted_name(f) not in ("np.int64", "int", "numpy.int64"):
+                raise NotImplementedError("array call `%s`" % norm(e)[:60])
+        return None
+
+    def selection(self, call):
+        m = self.vexpr(call.args[0])
+        if m is None or not m.mask or m.guard is not None:
+            raise NotImplementedError("np.where of `%s`" % norm(call.args[0])[:60])
+        return _Vec(m.length, lambda i: i, m.elem)
+
+    def loop(self, length, body_of):
+        i = self.fresh("v")
+        return [ast.Assign(targets=[ast.Name(id=i, ctx=ast.Store())], value=ast.Constant(value=0)),
+                ast.While(test=ast.Compare(left=_name(i), ops=[ast.Lt()], comparators=[copy.deepcopy(length)]),
+                          body=body_of(_name(i)) + [ast.AugAssign(target=ast.Name(id=i, ctx=ast.Store()), op=ast.Add(), value=ast.Constant(value=1))], orelse=[])]
+
+    def scatter_add(self, target, idx):
+        """target[idx_i] += 1 for every (present) element of the index array"""
+        v = self.vexpr(idx)
+        if v is None or v.mask or not isinstance(target, ast.Name):
+            raise NotImplementedError("counting into `%s`" % norm(target))
+
+        def body(i):
+            inc = ast.AugAssign(target=ast.Subscript(value=_name(target.id), slice=v.elem(i), ctx=ast.Store()), op=ast.Add(), value=ast.Constant(value=1))
+            return [ast.If(test=v.guard(i), body=[inc], orelse=[])] if v.guard is not None else [inc]
+        return self.loop(v.length, body)
+
+    # -- single statements --------------------------------------------------------
+    def stmt(self, st, in_loop, rest):
+        if isinstance(st, ast.Expr):
+            c = st.value
+            g = self.helper(c)
+            if g is not None:
+                return self.inline(g, c)
+            if isinstance(c, ast.Call) and dotted_name(c.func) in ("np.add.at", "numpy.add.at") and len(c.args) == 3 and const_value(c.args[2]) == 1:
+                return self.scatter_add(c.args[0], c.args[1])
+            return [st]
+        if isinstance(st, ast.Assign) and len(st.targets) == 1:
+            t, v = st.targets[0], st.value
+            if isinstance(t, (ast.Tuple, ast.List)) and len(t.elts) == 1 and isinstance(t.elts[0], ast.Name) and isinstance(v, ast.Call) and call_name(v) in ("where", "nonzero") and len(v.args) == 1:
+                self.vec[t.elts[0].id] = self.selection(v)
+                return []
+            if isinstance(t, ast.Name):
+                vv = self.vexpr(v)
+                if vv is not None:
+                    self.vec[t.id] = vv
+                    return []
+                self.vec.pop(t.id, None)
+                return [ast.Assign(targets=[t], value=self.expr(v))]
+            if isinstance(t, ast.Subscript) and isinstance(t.slice, ast.Slice) and t.slice.step is None and isinstance(t.value, ast.Name):
+                lo = self.expr(t.slice.lower) if t.slice.lower is not None else ast.Constant(value=0)
+                vv = self.vexpr(v)
+                if vv is not None:
+                    if vv.guard is not None or vv.mask:
+                        raise NotImplementedError("slice store of a filtered array")
+                    return self.loop(vv.length, lambda i: [ast.Assign(targets=[ast.Subscript(value=_name(t.value.id), slice=ast.BinOp(left=copy.deepcopy(lo), op=ast.Add(), right=i), ctx=ast.Store())], value=self.expr(vv.elem(i)))])
+                hi = self.expr(t.slice.upper) if t.slice.upper is not None else ast.Attribute(value=_name(t.value.id), attr="size", ctx=ast.Load())
+                return [ast.Assign(targets=[ast.Subscript(value=t.value, slice=ast.Slice(lower=lo, upper=hi, step=None), ctx=ast.Store())], value=self.expr(v))]
+            if isinstance(t, ast.Subscript):
+                return [ast.Assign(targets=[ast.Subscript(value=t.value, slice=self.expr(t.slice), ctx=ast.Store())], value=self.expr(v))]
+            return [st]
+        if isinstance(st, ast.AugAssign):
+            v = st.value
+            if isinstance(st.op, ast.Add) and isinstance(v, ast.Call) and call_name(v) == "bincount" and v.args and kwarg(v, "weights") is None and len(v.args) == 1:
+                tg = st.target
+                if isinstance(tg, ast.Subscript) and isinstance(tg.slice, ast.Slice) and tg.slice.lower is None and tg.slice.upper is None and tg.slice.step is None:
+                    tg = tg.value
+                return self.scatter_add(tg, v.args[0])
+            if isinstance(st.target, ast.Subscript):
+                return [ast.AugAssign(target=ast.Subscript(value=st.target.value, slice=self.expr(st.target.slice), ctx=ast.Store()), op=st.op, value=self.expr(v))]
+            return [ast.AugAssign(target=st.target, op=st.op, value=self.expr(v))]
+        if isinstance(st, ast.If):
+            # (a `continue` in a nested arm skips more than the rest of that arm: it is left in place and refused by the lowering)
+            return [ast.If(test=self.expr(st.test), body=self.block(st.body, False, False), orelse=self.block(st.orelse, False, False))]
+        if isinstance(st, ast.While):
+            if st.orelse:
+                raise NotImplementedError("while/else")
+            return [ast.While(test=self.expr(st.test), body=self.block(st.body, True, False), orelse=[])]
+        if isinstance(st, ast.For):
+            return self.for_(st, rest)
+        return [st]
+
+    def for_(self, st, rest):
+        """hidden counter + while; the loop variables are assigned at the head of every iteration, so they hold what they
+        hold in Python inside and after the loop (position + start, element)"""
+        if st.orelse:
+            raise NotImplementedError("for/else")
+        it, tg = st.iter, st.target
+        i = self.fresh("i")
+        pre = [ast.Assign(targets=[ast.Name(id=i, ctx=ast.Store())], value=ast.Constant(value=0))]
+        inc = [ast.AugAssign(target=ast.Name(id=i, ctx=ast.Store()), op=ast.Add(), value=ast.Constant(value=1))]
+        head = []
+
+        def setv(target, value):
+            if not isinstance(target, ast.Name):
+                raise NotImplementedError("for target `%s`" % norm(target))
+            head.append(ast.Assign(targets=[ast.Name(id=target.id, ctx=ast.Store())], value=value))
+
+        def over(seq, target):
+            v = self.vexpr(seq)
+            if v is None or v.guard is not None:
+                raise NotImplementedError("for over `%s`" % norm(seq)[:60])
+            setv(target, self.expr(v.elem(_name(i))))
+            return ast.Compare(left=_name(i), ops=[ast.Lt()], comparators=[copy.deepcopy(v.length)])
+        if isinstance(it, ast.Call) and isinstance(it.func, ast.Name) and it.func.id == "range" and 1 <= len(it.args) <= 2 and not it.keywords:
+            lo, hi = (ast.Constant(value=0), it.args[0]) if len(it.args) == 1 else it.args
+            pos = ast.BinOp(left=self.expr(lo), op=ast.Add(), right=_name(i))
+            setv(tg, pos)
+            cond = ast.Compare(left=copy.deepcopy(pos), ops=[ast.Lt()], comparators=[self.expr(hi)])
+        elif isinstance(it, ast.Call) and isinstance(it.func, ast.Name) and it.func.id == "enumerate" and isinstance(tg, ast.Tuple) and len(tg.elts) == 2 and 1 <= len(it.args) <= 2:
+            start = it.args[1] if len(it.args) == 2 else (kwarg(it, "start") or ast.Constant(value=0))
+            cond = over(it.args[0], tg.elts[1])
+            setv(tg.elts[0], ast.BinOp(left=self.expr(start), op=ast.Add(), right=_name(i)))
+        else:
+            cond = over(it, tg)
+        return pre + [ast.While(test=cond, body=head + self.block(st.body, True, False) + inc, orelse=[])]
+
+    def inline(self, g, call):
+        if self.depth > 3:
+            raise NotImplementedError("helpers nested too deeply at %s" % g.name)
+        if any(isinstance(x, (ast.Yield, ast.YieldFrom, ast.Try, ast.With)) for x in walk_no_nested(g.node)):
+            raise NotImplementedError("helper %s is not plain code" % g.name)
+        b, loc = self.bind(g, call)
+        body = [_Rename(loc, b).visit(copy.deepcopy(s)) for s in g.node.body]
+        for x in body:
+            for y in ast.walk(x):
+                if isinstance(y, ast.Return) and y.value is not None and not (isinstance(y.value, ast.Constant) and y.value.value is None):
+                    raise NotImplementedError("helper %s returns a value" % g.name)
+        self.depth += 1
+        try:
+            return self.block(body, False, True)
+        finally:
+            self.depth -= 1
+
+
+def _bare_return(s):
+    return isinstance(s, ast.Return) and (s.value is None or (isinstance(s.value, ast.Constant) and s.value.value is None))
+
+
+def _and(a, b):
+    if a is None:
+        return b
+    return lambda i: ast.BoolOp(op=ast.And(), values=[a(i), b(i)])
+
+
+def py_prepare(repo, fi):
+    return _PyPrep(repo, fi).run()
+
+
+# =============================================================================
+# Guarded effects in a layout-independent normal form
+# =============================================================================
+# vcheck.sibling reduces an engine to guarded effects whose symbols are numbered by the order in which loops and loop
+# carried variables are met (k0, k1, S0_1 ...).  Here the same reduction is run and the result renamed by *content*:
+#   loop counters by nesting depth (K0 outermost), so that it does not matter how many loops precede a loop;
+#   loop carried state by its update rule (T<digest of the rule text>), not by the variable's name or position;
+#   integer comparisons `d > 0` as `d - 1 >= 0` (a `<` bound and a `<=` bound of the same range read the same);
+#   two effects that differ only in one complementary guard atom (c / not c) are one effect without that atom
+#   (a store duplicated into both arms of a test, e.g. a separate counting pass when no reverse indices are wanted);
+#   a loop invariant guard on a state update is dropped when every reader of that state is under the same guard
+#   (the state is dead elsewhere);   an effect performed twice is marked (x2).
+# The initial value of each loop carried state (its value when the loop is entered) is recorded as well.
+import sympy as sp
+
+nf0 = sibling.nf
+
+
+class _Red(sibling.Red):
+    def __init__(s, roles):
+        sibling.Red.__init__(s, roles)
+        s.init = {}
+
+    def run(s, stmts, env, guards, loops, rest=()):
+        stmts = list(stmts)
+        for pos, st in enumerate(stmts):
+            after = stmts[pos + 1:] + list(rest)
+            if isinstance(st, sibling.While):
+                lid, snap = s.nloop, dict(env)
+                sibling.Red.run(s, [st], env, guards, loops, after)
+                for v, val in env.items():
+                    nm = str(val)
+                    if nm.startswith("S%d_" % lid) and nm.endswith("_final") and v in snap:
+                        s.init[nm[:-6]] = snap[v]
+            else:
+                sibling.Red.run(s, [st], env, guards, loops, after)
+
+
+def _is_int(e):
+    if e.is_Integer:
+        return True
+    if e.is_Symbol:
+        return not e.name.startswith(("P", "?"))
+    if e.is_Add or e.is_Mul:
+        return all(_is_int(a) for a in e.args)
+    if isinstance(e, sp.core.function.AppliedUndef):
+        f = e.func.__name__
+        if f in ("size", "trunc", "notnone"):
+            return True
+        if f == "rd":
+            return str(e.args[0]) in ("P2", "P4", "P5")
+    return False
+
+
+def nf(e):
+    if isinstance(e, (sp.And, sp.Or)):
+        return e.func(*[nf(a) for a in e.args])
+    if isinstance(e, sp.Not) and isinstance(e.args[0], sp.Rel) and not isinstance(e.args[0], (sp.Eq, sp.Ne)):
+        return nf(e.args[0].negated)
+    e = nf0(e)
+    if isinstance(e, sp.Gt) and e.rhs == 0 and _is_int(e.lhs):
+        return sp.Ge(sp.expand(e.lhs - 1), 0, evaluate=False)
+    return e
+
+
+def _pw(v):
+    if isinstance(v, sp.Piecewise):
+        return "PW[" + "; ".join("%s if %s" % (_pw(val), str(nf(c))) for val, c in v.args) + "]"
+    if isinstance(v, sp.Basic) and v.has(sp.Piecewise):
+        return str(v.replace(lambda e: isinstance(e, sp.Piecewise), lambda e: sp.Symbol(_pw(e))))
+    return str(nf(v))
+
+
+class Eff:
+    __slots__ = ("loops", "g", "kind", "a", "i", "v", "atoms", "syms", "n")
+
+    def key(self):
+        return (self.loops, tuple(sorted(self.g)), self.kind + ("(x%d)" % self.n if self.n > 1 else ""), self.a, self.i, self.v)
+
+
+def engine_effects(ir, roles):
+    """(list of Eff, {state name: initial value text}) of one engine"""
+    r = _Red(roles)
+    r.run(ir, {}, [], [])
+    depth, cond = {}, {}
+    for loops, g, kind, a, i, v in r.effects:
+        for d, (_, lid, c) in enumerate(loops):
+            depth[lid], cond[lid] = d, c
+    sym = {sp.Symbol("k%d" % lid, integer=True): sp.Symbol("K%d" % d, integer=True) for lid, d in depth.items()}
+    states = [(loops, a, v) for loops, g, kind, a, i, v in r.effects if kind == "state"]
+    names = [a for _, a, _ in states]
+    SELF, OTHER = sp.Symbol("SELF"), sp.Symbol("OTHER")
+    sig = {}
+    for loops, a, v in states:
+        m = dict(sym)
+        m.update({b: OTHER for b in names if b != a})
+        m[a] = SELF
+        sig[a] = (len(loops), _pw(v.xreplace(m)), tuple(str(nf(c.xreplace(m))) for _, _, c in loops))
+    if len(set(sig.values())) != len(names):
+        raise AnalysisError("two loop carried variables of an engine have the same update rule: no canonical naming")
+    for a in names:
+        t = "T" + hashlib.sha1(repr(sig[a]).encode()).hexdigest()[:4]
+        sym[a] = sp.Symbol(t)
+        sym[sp.Symbol(str(a) + "_final")] = sp.Symbol(t + "_final")
+    for lid, c in cond.items():
+        sym[sp.Symbol("ind%d_x_final" % lid)] = sp.Symbol("end[%s]" % str(nf(c.xreplace(sym))))
+    rn = lambda e: e.xreplace(sym) if isinstance(e, sp.Basic) else e
+    out = []
+    for loops, g, kind, a, i, v in r.effects:
+        e = Eff()
+        G = r.atoms([sp.logic.boolalg.to_nnf(rn(x), simplify=False) if getattr(rn(x), "is_Boolean", False) or getattr(rn(x), "is_Relational", False) else rn(x) for x in g])
+        e.atoms = {str(nf(x)): x for x in G}
+        e.g = frozenset(e.atoms)
+        e.kind, e.a, e.n = kind, str(rn(a)), 1
+        lc = [rn(c) for _, _, c in loops]
+        v2 = rn(v)
+        if kind == "state":
+            e.loops = tuple(str(nf(c)) for c in lc)
+            e.i = ""
+            e.v = _pw(r.norm_truth(v2) if getattr(v2, "is_Boolean", False) else v2)
+        else:
+            e.loops = tuple(str(nf(r.under(c, G))) for c in lc)
+            e.i = str(nf(rn(i))) if i is not None else ""
+            e.v = str(nf(r.under(v2, G)))
+        fs = set()
+        for x in lc + list(G) + [v2] + ([rn(i)] if isinstance(i, sp.Basic) else []):
+            if isinstance(x, sp.Basic):
+                fs |= {str(s_) for s_ in x.free_symbols}
+        e.syms = fs - ({e.a} if kind == "state" else set())
+        out.append(e)
+    out = _merge_complementary(out)
+    _drop_dead_state_guards(out)
+    # multiplicity
+    seen = {}
+    for e in out:
+        k = e.key()
+        if k in seen:
+            seen[k].n += 1
+        else:
+            seen[k] = e
+    out = list(seen.values())
+    init = {}
+    for s_, val in r.init.items():
+        t = sym.get(sp.Symbol(s_))
+        if t is not None and isinstance(val, sp.Basic):
+            init[str(t)] = str(nf(rn(val)))
+    return out, init
+
+
+def _merge_complementary(effs):
+    effs = list(effs)
+    changed = True
+    while changed:
+        changed = False
+        for x in range(len(effs)):
+            for y in range(x + 1, len(effs)):
+                a, b = effs[x], effs[y]
+                if (a.loops, a.kind, a.a, a.i, a.v) != (b.loops, b.kind, b.a, b.i, b.v) or a.kind != "store":
+                    continue
+                da, db = a.g - b.g, b.g - a.g
+                if len(da) == 1 and len(db) == 1:
+                    ga, gb = next(iter(da)), next(iter(db))
+                    try:
+                        neg = str(nf(sp.Not(a.atoms[ga])))
+                    except Exception:
+                        continue
+                    if neg == gb:
+                        a.g = a.g & b.g
+                        a.atoms = {k: v for k, v in a.atoms.items() if k in a.g}
+                        a.syms = a.syms | b.syms
+                        del effs[y]
+                        changed = True
+                        break
+            if changed:
+                break
+    return effs
+
+
+def _drop_dead_state_guards(effs):
+    for e in effs:
+        if e.kind != "state":
+            continue
+        mine = {e.a, e.a + "_final"}
+        readers = [q for q in effs if q is not e and (mine & q.syms)]
+        for gs, atom in list(e.atoms.items()):
+            if all(str(s_).startswith("P") for s_ in atom.free_symbols) and readers and all(gs in q.g for q in readers):
+                e.g = e.g - {gs}
+                del e.atoms[gs]
+
+
+def _array_params(fn):
+    return [a.arg for a in fn.args.args]
+
+
+def compare_engines(py_fn, c_decl):
+    """guarded effects (lists of Eff) and state initial values of the Python and the C engine"""
+    try:
+        pyir = sibling.lower_python(py_fn)
+        A, ia = engine_effects(pyir, {p: "P%d" % i for i, p in enumerate(_array_params(py_fn))})
+        cir = sibling.lower_c(c_decl)
+        B, ib = engine_effects(cir, sibling.c_roles(c_decl))
+    except NotImplementedError as e:
+        raise AnalysisError("sibling lowering met an unsupported construct: %s" % e)
+    return A, ia, B, ib
+
+
+def engines(chk, repo, py, cfn):
+    """R05.1 (the engines perform the same guarded effects) and R05.2 (count / index pairing, on the Python engine's effects)"""
+    try:
+        py_l = py_prepare(repo, py)
+        cfn_l = c_prepare(cfn)
+    except NotImplementedError as e:
+        raise AnalysisError("engine construct not supported by the desugaring: %s" % e)
+    EA, ia, EB, ib = compare_engines(py_l, cfn_l)
+    A, B = {e.key() for e in EA}, {e.key() for e in EB}
     chk.ob("R05.1", "engines::effect-sets-found", len(A) >= 5 and len(B) >= 5, py.where(), "guarded effects: python %d, C %d" % (len(A), len(B)))
     for x in sorted(A - B):
         chk.ob("R05.1", "engines::python-only-effect::%s/%s" % (x[2], x[3]), False, py.where(),
@@ -56,173 +964,806 @@ def run(chk):
                "the C engine performs an effect the Python engine does not: array role %s, index %s, value %s under %s in loops %s" % (x[3], x[4], x[5], list(x[1]), list(x[0])))
     if A == B:
         chk.ob("R05.1", "engines::isomorphic", True, py.where(), "both engines reduce to the same %d guarded effects" % len(A))
+        di = {k: (ia.get(k), ib.get(k)) for k in set(ia) | set(ib) if ia.get(k) != ib.get(k)}
+        chk.ob("R05.1", "engines::same-initial-state", not di, py.where(), "loop carried variables start from the same values in both engines (%s)" % (di or ia))
     chk.notes["guarded_effects"] = [list(map(str, x)) for x in sorted(A)]
     # ---- R05.2 count / index pairing (on the effect set of the Python engine) ---
-    import sympy as sp
-    nf = sibling.nf
-    P0, P1, P2, P3, P4, P5, S0 = sp.symbols("P0 P1 P2 P3 P4 P5 S0_0")
-    k0, k1 = sp.Symbol("k0", integer=True), sp.Symbol("k1", integer=True)
+    P0, P1, P2, P3, P4, P5 = sp.symbols("P0 P1 P2 P3 P4 P5")
+    K0, K1 = sp.Symbol("K0", integer=True), sp.Symbol("K1", integer=True)
     rd, size, trunc, notnone = sp.Function("rd"), sp.Function("size"), sp.Function("trunc"), sp.Function("notnone")
-    BINe = trunc((rd(P0, rd(P2, k0)) - P1) / P3)
+    BINe = trunc((rd(P0, rd(P2, K0)) - P1) / P3)
     BIN = str(nf(BINe))
-    OFF = str(nf(k0 + size(P4) + 1))
-    MAIN = str(nf(k0 < size(P2)))
+    OFF = str(nf(K0 + size(P4) + 1))
+    MAIN = str(nf(K0 < size(P2)))
     DOREV = str(nf(notnone(P5) > 0))
-    incs = [x for x in A if x[2] == "store" and x[3] == "P4"]
-    ok = len(incs) == 1 and incs[0][4] == BIN and incs[0][5] == str(nf(rd(P4, BINe) + 1))
-    chk.ob("R05.2", "engine::one-increment-per-datum-in-its-bin", ok, py.where(), "hist[b] += 1 with b = trunc((data[s[i]] - min)/binsize) once per sorted datum (%s)" % [(x[4], x[5]) for x in incs])
+    COUNTED = {str(nf(BINe >= 0)), str(nf(size(P4) > BINe))}
+    counted = sp.And(BINe >= 0, size(P4) > BINe)
+    w = py.where()
+    incs = [e for e in EA if e.kind == "store" and e.a == "P4"]
+    ok = len(incs) == 1 and incs[0].n == 1 and incs[0].i == BIN and incs[0].v == str(nf(rd(P4, BINe) + 1))
+    chk.ob("R05.2", "engine::one-increment-per-datum-in-its-bin", ok, w, "hist[b] += 1 with b = trunc((data[s[i]] - min)/binsize) once per sorted datum (%s)" % [(e.i, e.v, e.n) for e in incs])
     if incs:
-        g = set(incs[0][1])
-        want = {str(nf(BINe >= 0)), str(nf(size(P4) > BINe))}
-        chk.ob("R05.2", "engine::count-guard-is-valid-bin", g == want, py.where(), "the increment is guarded by exactly 0 <= b < nbin (found %s)" % sorted(g))
-        chk.ob("R05.2", "engine::main-loop-over-all-sorted-data", incs[0][0] == (MAIN,), py.where(), "the pass visits every sorted datum i in [0, s.size) (%s)" % list(incs[0][0]))
-    revs = [x for x in A if x[2] == "store" and x[3] == "P5"]
-    idx = [x for x in revs if x[5] == str(nf(rd(P2, k0)))]
-    ok = len(idx) == 1 and idx[0][4] == OFF and set(idx[0][1]) == {DOREV}
-    chk.ob("R05.2", "engine::every-sorted-index-stored-at-its-offset", ok, py.where(), "rev[i + nbin + 1] = s[i] for every i (value order, ties in original order) when reverse indices are requested")
-    fills = [x for x in revs if x[5] == OFF and len(x[0]) == 2]
-    ok = len(fills) == 1 and fills[0][4] == str(nf(S0 + k1 + 1)) and str(nf(S0 < BINe)) in fills[0][1] and str(nf(S0 + k1 + 1 <= BINe)) in fills[0][0]
-    chk.ob("R05.2", "engine::bin-offsets-filled-up-to-current-bin", ok, py.where(), "when a datum opens bin b, rev[t] = offset for every t in (previous bin, b] (empty bins in between get the same offset)")
-    chk.ob("R05.2", "engine::effect-count", len(revs) == 3, py.where(), "three kinds of stores into the reverse-index array (index, bin offset, tail)")
+        chk.ob("R05.2", "engine::count-guard-is-valid-bin", set(incs[0].g) == COUNTED, w, "the increment is guarded by exactly 0 <= b < nbin (found %s)" % sorted(incs[0].g))
+        chk.ob("R05.2", "engine::main-loop-over-all-sorted-data", incs[0].loops == (MAIN,), w, "the pass visits every sorted datum i in [0, s.size) (%s)" % list(incs[0].loops))
+    revs = [e for e in EA if e.kind == "store" and e.a == "P5"]
+    idx = [e for e in revs if e.v == str(nf(rd(P2, K0)))]
+    ok = len(idx) == 1 and idx[0].n == 1 and idx[0].i == OFF and set(idx[0].g) == {DOREV} and idx[0].loops == (MAIN,)
+    chk.ob("R05.2", "engine::every-sorted-index-stored-at-its-offset", ok, w, "rev[i + nbin + 1] = s[i] for every i (value order, ties in original order) when reverse indices are requested")
     # loop-carried state: the last occupied bin, and the end of the counted data
-    states = sorted(x[5] for x in A if x[2] == "state")
-    okb = any(x.startswith("PW[%s if " % BIN) for x in states)
-    chk.ob("R05.2", "engine::state::last-occupied-bin", okb, py.where(), "the last occupied bin is updated to b exactly when a datum is counted")
-    tail_fill(chk, py, cfn)
-    # ---- R05.3 ABI ---------------------------------------------------------------
-    abi(chk, repo, cfn)
-    # ---- R05.4 / R05.5 ------------------------------------------------------------
-    limits(chk, repo)
-    derivations(chk, repo)
+    st = {e.a: e for e in EA if e.kind == "state"}
+    binst = [a for a, e in st.items() if e.loops == (MAIN,) and e.v == _pw(sp.Piecewise((BINe, counted), (sp.Symbol(a), True)))]
+    endst = [a for a, e in st.items() if e.loops == (MAIN,) and e.v == _pw(sp.Piecewise((K0 + size(P4) + 2, counted), (sp.Symbol(a), True)))]
+    chk.ob("R05.2", "engine::state::last-occupied-bin", len(binst) == 1, w, "the last occupied bin is updated to b exactly when a datum is counted (%s)" % sorted((a, e.v) for a, e in st.items()))
+    SB = sp.Symbol(binst[0]) if len(binst) == 1 else sp.Symbol("T?")
+    fills = [e for e in revs if e.v == OFF and len(e.loops) == 2]
+    ok = len(fills) == 1 and fills[0].i == str(nf(SB + K1 + 1)) and str(nf(SB < BINe)) in fills[0].g and fills[0].loops == (MAIN, str(nf(SB + K1 + 1 <= BINe)))
+    chk.ob("R05.2", "engine::bin-offsets-filled-up-to-current-bin", ok, w, "when a datum opens bin b, rev[t] = offset for every t in (previous bin, b] (empty bins in between get the same offset)")
+    chk.ob("R05.2", "engine::effect-count", len(revs) == 3, w, "three kinds of stores into the reverse-index array (index, bin offset, tail)")
+    # the offsets of the bins past the last occupied one
+    SBf = sp.Symbol(str(SB) + "_final")
+    outside = [e for e in revs if not (e.loops and e.loops[0] == MAIN)]
+    cands = [e for e in outside if len(e.loops) == 1 and e.i == str(nf(SBf + K0 + 1))]           # fills starting right after the last occupied bin
+    tails = [e for e in cands if e.loops[0] == str(nf(SBf + K0 + 1 <= size(P4)))]
+    found = True if len(tails) == 1 else (False if not outside or len(cands) == 1 else None)
+    chk.ob("R05.2", "engine::tail-fill-found", found, w,
+           "after the pass rev[t] is set for every t in (last occupied bin, nbin] (stores after the pass: %s)" % [(e.loops, e.i) for e in outside])
+    if len(tails) == 1:
+        t = tails[0]
+        ok = len(endst) == 1 and t.v == endst[0] + "_final" and ia.get(endst[0]) == str(nf(size(P4) + 1)) and DOREV in t.g
+        if ok:
+            chk.ob("R05.2", "engine::tail-fill-is-end-of-counted-data", True, w,
+                   "the offsets of the bins past the last occupied one are the end of the counted data: a variable that starts at nbin+1 and is set to offset+1 whenever a datum is counted")
+        else:
+            chk.ob("R05.2", "engine::tail-fill-is-end-of-counted-data", False, w,
+                   "the offsets of the bins past the last occupied one are set to `%s` (initial values %s), not to the end of the *counted* data (nbin+1, then offset+1 after each counted datum): "
+                   "data that were stored in the index area but not counted (bin index >= nbin, e.g. the maximum when nbin= is given) then fall into the last occupied bin's slice, "
+                   "whose length exceeds hist[i]" % (t.v, ia))
 
 
-def tail_fill(chk, py, cfn):
-    fn = py.node
-    loops = [x for x in fn.body if isinstance(x, ast.While)] + [y for x in fn.body if isinstance(x, ast.If) for y in x.body if isinstance(y, ast.While)]
-    tails = [lp for lp in loops if any(isinstance(s, ast.Assign) and isinstance(s.targets[0], ast.Subscript) and norm(s.targets[0].value) == py.params[5] for s in lp.body)
-             and "<= nbin" in norm(lp.test)]
-    chk.ob("R05.2", "engine::tail-fill-found", len(tails) == 1, py.where(), "tail fill loop over the bins past the last occupied one")
-    if len(tails) != 1:
-        return
-    st = [s for s in tails[0].body if isinstance(s, ast.Assign) and isinstance(s.targets[0], ast.Subscript)][0]
-    v = st.value
-    rev = py.params[5]
-    if isinstance(v, ast.Name):
-        asg = [(a, _guards(fn, a)) for a in ast.walk(fn) if isinstance(a, ast.Assign) and norm(a.targets[0]) == v.id]
-        init = [a for a, g in asg if not g and norm(a.value).replace(" ", "") in ("nbin+1", "hist.size+1")]
-        upd = [a for a, g in asg if any("binnum >= 0 and binnum < nbin" in t for t in g) and norm(a.value).replace(" ", "") == "offset+1"]
-        ok = len(asg) == 2 and len(init) == 1 and len(upd) == 1
-        chk.ob("R05.2", "engine::tail-fill-is-end-of-counted-data", ok, py.where(st),
-               "the offsets of the bins past the last occupied one are `%s`: initialised to nbin+1 and set to offset+1 whenever a datum is counted (%s)" % (v.id, [(norm(a), g) for a, g in asg]))
-    else:
-        ok = False
-        chk.ob("R05.2", "engine::tail-fill-is-end-of-counted-data", ok, py.where(st),
-               "the offsets of the bins past the last occupied one are set to `%s` (the end of *all* sorted data): data that were stored in the index area but not counted "
-               "(bin index >= nbin, e.g. the maximum when nbin= is given) then fall into the last occupied bin's slice, whose length exceeds hist[i]" % norm(v))
+# =============================================================================
+# Path-sensitive forward substitution over the (loop-free) wrapper functions
+# =============================================================================
+# The wrapper rules (R05.3 call roles, R05.4 limits, R05.5 derivations) are stated on *values*: every path through a
+# function is executed symbolically (names and `self.<attr>` / `self[<key>]` cells are replaced by the expressions that
+# flow into them, private helpers without loops are followed), so a rule sees "what reaches the engine when min is given"
+# and not "the statement that assigns xmin".  Flags, conditional expressions, early returns, swapped arms, named
+# temporaries and extracted helpers all reduce to the same per-path values.
+
+class _Unsupported(Exception):
+    pass
 
 
-def _guards(fn, node):
-    """normalised tests of the if-statements (and while loops) enclosing node inside fn"""
-    out = []
+class _Sub(ast.NodeTransformer):
+    """replace loads of names / self cells by their current values (values are already closed: no re-substitution)"""
 
-    def visit(stmts, g):
+    def __init__(self, env):
+        self.env = env
+
+    def visit_Name(self, n):
+        if isinstance(n.ctx, ast.Load) and n.id in self.env:
+            return copy.deepcopy(self.env[n.id])
+        return n
+
+    def _cell(self, n):
+        if isinstance(n.ctx, ast.Load):
+            k = norm(n)
+            if k in self.env:
+                return copy.deepcopy(self.env[k])
+        return self.generic_visit(n)
+
+    visit_Attribute = _cell
+    visit_Subscript = _cell
+
+    def visit_Lambda(self, n):
+        return n
+
+
+def _sub(e, env):
+    return _Sub(env).visit(copy.deepcopy(e))
+
+
+class _Call:
+    __slots__ = ("raw", "func", "args", "kws", "in_loop", "value")
+
+    def __init__(self, raw, env, in_loop=False):
+        self.raw = raw
+        self.func = _sub(raw.func, env)
+        self.args = [_sub(a, env) for a in raw.args]
+        self.kws = {k.arg: _sub(k.value, env) for k in raw.keywords}
+        self.in_loop = in_loop
+        self.value = _sub(raw, env)
+
+    @property
+    def name(self):
+        return dotted_name(self.func) or ""
+
+
+class _St:
+    """one path: env (name / self cell -> expression over the function's inputs), branch decisions, calls met"""
+
+    def __init__(self):
+        self.env = {}
+        self.conds = []
+        self.calls = []
+        self.known = {}
+        self.outcome = None
+        self.ret = None
+
+    def fork(self):
+        t = _St()
+        t.env, t.conds, t.calls, t.known = dict(self.env), list(self.conds), list(self.calls), dict(self.known)
+        return t
+
+    def learn(self, t, truth):
+        self.known[norm(t)] = truth
+        if isinstance(t, ast.UnaryOp) and isinstance(t.op, ast.Not):
+            self.learn(t.operand, not truth)
+        elif isinstance(t, ast.BoolOp):
+            if isinstance(t.op, ast.And) and truth or isinstance(t.op, ast.Or) and not truth:
+                for v in t.values:
+                    self.learn(v, truth)
+        elif isinstance(t, ast.Compare) and len(t.ops) == 1 and isinstance(t.ops[0], (ast.Is, ast.IsNot, ast.Eq, ast.NotEq, ast.Lt, ast.GtE, ast.Gt, ast.LtE)):
+            flip = {ast.Is: ast.IsNot, ast.IsNot: ast.Is, ast.Eq: ast.NotEq, ast.NotEq: ast.Eq, ast.Lt: ast.GtE, ast.GtE: ast.Lt, ast.Gt: ast.LtE, ast.LtE: ast.Gt}
+            o = ast.Compare(left=t.left, ops=[flip[type(t.ops[0])]()], comparators=t.comparators)
+            self.known[norm(o)] = not truth
+
+
+def _is_self_key(k):
+    return k.startswith("self.") or k.startswith("self[")
+
+
+class _PathEx:
+    LIMIT = 600
+
+    def __init__(self, repo, opaque=(), depth=2):
+        self.repo = repo
+        self.opaque = set(opaque)
+        self.depth = depth
+
+    # -- entry ---------------------------------------------------------------
+    def run(self, fi):
+        done = []
+        live = self.block(fi, fi.node.body, [_St()], done, self.depth)
+        for st in live:
+            st.outcome = "fall"
+            done.append(st)
+        return done
+
+    def block(self, fi, stmts, live, done, depth):
         for s in stmts:
-            if s is node:
-                out.extend(g)
-                return True
-            for f, extra in (("body", True), ("orelse", False)):
-                sub = getattr(s, f, None)
-                if isinstance(sub, list) and sub:
-                    t = norm(s.test) if isinstance(s, ast.If) else None
-                    gg = g + ([t if extra else "not " + t] if t else [])
-                    if visit(sub, gg):
-                        return True
+            nxt = []
+            for st in live:
+                nxt.extend(self.stmt(fi, s, st, done, depth))
+            live = nxt
+            if len(live) + len(done) > self.LIMIT:
+                raise _Unsupported("too many paths in %s" % fi.qualname)
+        return live
+
+    # -- helpers ---------------------------------------------------------------
+    def note_calls(self, e, st, in_loop=False):
+        if e is None:
+            return
+        for x in walk_no_nested(e):
+            if isinstance(x, ast.Call):
+                st.calls.append(_Call(x, st.env, in_loop))
+
+    def assign(self, t, v, st):
+        if isinstance(t, ast.Name):
+            st.env[t.id] = v
+        elif isinstance(t, (ast.Tuple, ast.List)):
+            if isinstance(v, (ast.Tuple, ast.List)) and len(v.elts) == len(t.elts) and not any(isinstance(e, ast.Starred) for e in t.elts + v.elts):
+                for tt, vv in zip(t.elts, v.elts):
+                    self.assign(tt, vv, st)
+            else:
+                for i, tt in enumerate(t.elts):
+                    if isinstance(tt, ast.Starred):
+                        raise _Unsupported("starred target")
+                    self.assign(tt, ast.Subscript(value=copy.deepcopy(v), slice=ast.Constant(value=i), ctx=ast.Load()), st)
+        elif isinstance(t, ast.Subscript):
+            st.env[norm(ast.Subscript(value=t.value, slice=_sub(t.slice, st.env), ctx=ast.Load()))] = v
+        elif isinstance(t, ast.Attribute):
+            st.env[norm(t)] = v
+        else:
+            raise _Unsupported("assignment target %s" % type(t).__name__)
+
+    def callee(self, fi, call):
+        """FuncInfo of a private helper that can be followed (same class through self, or same module), else None"""
+        f = call.func
+        q = None
+        if isinstance(f, ast.Attribute) and isinstance(f.value, ast.Name) and f.value.id == "self" and fi.cls:
+            q = "%s.%s.%s" % (fi.module.name, fi.cls, f.attr)
+        elif isinstance(f, ast.Name):
+            q = "%s.%s" % (fi.module.name, f.id)
+        g = self.repo.funcs.get(q) if q else None
+        if g is None or g.name in self.opaque or g.node is fi.node:
+            return None
+        if any(isinstance(x, (ast.For, ast.While, ast.Try, ast.With, ast.Yield, ast.YieldFrom)) for x in walk_no_nested(g.node)):
+            return None
+        if any(p.startswith("*") for p in g.params) or any(isinstance(a, ast.Starred) for a in call.args) or any(k.arg is None for k in call.keywords):
+            return None
+        return g
+
+    def inline(self, fi, call, st, done, depth):
+        """[(state after the call, returned expression)] for a followed helper call"""
+        g = self.callee(fi, call)
+        st.calls.append(_Call(call, st.env))
+        ps = list(g.params)
+        if g.cls:
+            ps = ps[1:]
+        cst = st.fork()
+        cst.env = {k: v for k, v in st.env.items() if _is_self_key(k)}
+        args = [_sub(a, st.env) for a in call.args]
+        if len(args) > len(ps):
+            raise _Unsupported("too many arguments for %s" % g.qualname)
+        bound = dict(zip(ps, args))
+        for k in call.keywords:
+            if k.arg not in ps or k.arg in bound:
+                raise _Unsupported("keyword %s of %s" % (k.arg, g.qualname))
+            bound[k.arg] = _sub(k.value, st.env)
+        for p in ps:
+            if p not in bound:
+                if p not in g.defaults:
+                    raise _Unsupported("argument %s of %s missing" % (p, g.qualname))
+                bound[p] = copy.deepcopy(g.defaults[p])
+        cst.env.update(bound)
+        cdone = []
+        live = self.block(g, g.node.body, [cst], cdone, depth - 1)
+        for c in live:
+            c.outcome, c.ret = "return", None
+            cdone.append(c)
+        out = []
+        for c in cdone:
+            if c.outcome == "raise":
+                done.append(c)
+                continue
+            n = c.fork()
+            n.env = dict(st.env)
+            n.env.update({k: v for k, v in c.env.items() if _is_self_key(k)})
+            out.append((n, c.ret if c.ret is not None else ast.Constant(value=None)))
+        return out
+
+    def decide(self, t, st):
+        return eval_test(t, {}, st.known)
+
+    # -- statements ------------------------------------------------------------
+    def stmt(self, fi, s, st, done, depth):
+        if isinstance(s, ast.Expr):
+            v = s.value
+            if isinstance(v, ast.Call) and depth > 0 and self.callee(fi, v) is not None:
+                return [n for n, _ in self.inline(fi, v, st, done, depth)]
+            self.note_calls(v, st)
+            return [st]
+        if isinstance(s, (ast.Assign, ast.AnnAssign)):
+            if s.value is None:
+                return [st]
+            targets = s.targets if isinstance(s, ast.Assign) else [s.target]
+            if isinstance(s.value, ast.Call) and depth > 0 and self.callee(fi, s.value) is not None:
+                for a in s.value.args + [k.value for k in s.value.keywords]:
+                    self.note_calls(a, st)
+                out = []
+                for n, r in self.inline(fi, s.value, st, done, depth):
+                    for t in targets:
+                        self.assign(t, r, n)
+                    out.append(n)
+                return out
+            self.note_calls(s.value, st)
+            v = _sub(s.value, st.env)
+            for t in targets:
+                self.assign(t, v, st)
+            return [st]
+        if isinstance(s, ast.AugAssign):
+            self.note_calls(s.value, st)
+            old = _sub(ast.fix_missing_locations(copy.deepcopy(s.target)), st.env) if not isinstance(s.target, ast.Name) else st.env.get(s.target.id, ast.Name(id=s.target.id, ctx=ast.Load()))
+            v = ast.BinOp(left=copy.deepcopy(old), op=s.op, right=_sub(s.value, st.env))
+            self.assign(s.target, v, st)
+            return [st]
+        if isinstance(s, ast.If):
+            self.note_calls(s.test, st)
+            t = _sub(s.test, st.env)
+            d = self.decide(t, st)
+            if d is True:
+                return self.block(fi, s.body, [st], done, depth)
+            if d is False:
+                return self.block(fi, s.orelse, [st], done, depth)
+            a, b = st, st.fork()
+            a.conds.append((t, True))
+            a.learn(t, True)
+            b.conds.append((t, False))
+            b.learn(t, False)
+            return self.block(fi, s.body, [a], done, depth) + self.block(fi, s.orelse, [b], done, depth)
+        if isinstance(s, ast.Return):
+            self.note_calls(s.value, st)
+            st.outcome = "return"
+            st.ret = _sub(s.value, st.env) if s.value is not None else None
+            done.append(st)
+            return []
+        if isinstance(s, ast.Raise):
+            st.outcome = "raise"
+            done.append(st)
+            return []
+        if isinstance(s, (ast.For, ast.While)):
+            # not followed: everything the loop can assign becomes unknown, the calls inside are remembered as such
+            for x in walk_no_nested(s):
+                if isinstance(x, ast.Call):
+                    st.calls.append(_Call(x, {}, True))
+            for x in walk_no_nested(s):
+                tg = []
+                if isinstance(x, ast.Assign):
+                    tg = x.targets
+                elif isinstance(x, (ast.AugAssign, ast.AnnAssign)):
+                    tg = [x.target]
+                elif isinstance(x, ast.For):
+                    tg = [x.target]
+                for t in tg:
+                    for tt in rules._flat_targets(t):
+                        if isinstance(tt, ast.Name):
+                            st.env[tt.id] = ast.Name(id="<loop:%s>" % tt.id, ctx=ast.Load())
+                        elif isinstance(tt, (ast.Attribute, ast.Subscript)):
+                            for k in [k for k in st.env if k == norm(tt) or (isinstance(tt, ast.Subscript) and k.startswith(norm(tt.value) + "["))]:
+                                st.env[k] = ast.Name(id="<loop:%s>" % k, ctx=ast.Load())
+            return [st]
+        if isinstance(s, ast.With):
+            for it in s.items:
+                self.note_calls(it.context_expr, st)
+            return self.block(fi, s.body, [st], done, depth)
+        if isinstance(s, ast.Delete):
+            for t in s.targets:
+                st.env.pop(norm(t), None)
+            return [st]
+        if isinstance(s, (ast.Pass, ast.Import, ast.ImportFrom, ast.Global, ast.Nonlocal, ast.Assert, ast.FunctionDef, ast.ClassDef)):
+            return [st]
+        raise _Unsupported("statement %s in %s" % (type(s).__name__, fi.qualname))
+
+
+class _Simp(ast.NodeTransformer):
+    """reduce conditional expressions whose test is decided by the case flags"""
+
+    def __init__(self, flags):
+        self.flags = flags
+
+    def visit_IfExp(self, n):
+        v = eval_test(n.test, self.flags)
+        if v is True:
+            return self.visit(n.body)
+        if v is False:
+            return self.visit(n.orelse)
+        return self.generic_visit(n)
+
+
+def _simp(e, flags):
+    return None if e is None else _Simp(flags).visit(copy.deepcopy(e))
+
+
+def _consistent(st, flags):
+    for t, truth in st.conds:
+        v = eval_test(_simp(t, flags), flags)
+        if v is not None and v != truth:
+            return False
+    return True
+
+
+def _paths(repo, fi, opaque=()):
+    """finished paths of fi, or None when the function uses a construct the path executor does not model"""
+    try:
+        return _PathEx(repo, opaque=opaque).run(fi)
+    except (_Unsupported, RecursionError):
+        return None
+
+
+def _verdict(vs):
+    """aggregate of per-path / per-case verdicts: violated if one is, else unrecognised if one is, else held"""
+    vs = list(vs)
+    if any(v is False for v in vs):
         return False
-    visit(fn.body, [])
+    if not vs or any(v is None for v in vs):
+        return None
+    return True
+
+
+def _bind(call, fi, skip_self=None):
+    """{parameter name: argument expression} of a recorded call (_Call) against the signature of fi"""
+    ps = list(fi.params)
+    if fi.cls if skip_self is None else skip_self:
+        ps = ps[1:]
+    out = {}
+    for p, a in zip(ps, call.args):
+        out[p] = a
+    for k, v in call.kws.items():
+        out[k] = v
     return out
 
 
+def _lin(e):
+    """sympy value of an integer size expression; anything that is not + - * or a literal is an atom named by its text"""
+    import sympy as sp
+    if isinstance(e, ast.Constant) and isinstance(e.value, int) and not isinstance(e.value, bool):
+        return sp.Integer(e.value)
+    if isinstance(e, ast.BinOp) and isinstance(e.op, (ast.Add, ast.Sub, ast.Mult)):
+        a, b = _lin(e.left), _lin(e.right)
+        return a + b if isinstance(e.op, ast.Add) else a - b if isinstance(e.op, ast.Sub) else a * b
+    if isinstance(e, ast.UnaryOp) and isinstance(e.op, ast.USub):
+        return -_lin(e.operand)
+    if isinstance(e, ast.Call) and call_name(e) == "len" and len(e.args) == 1:
+        return sp.Symbol(norm(e.args[0]) + ".size")
+    return sp.Symbol(norm(e))
+
+
+def _same_size(a, b):
+    import sympy as sp
+    try:
+        return sp.expand(_lin(a) - _lin(b)) == 0
+    except Exception:
+        return False
+
+
+INT64 = ("'i8'", "np.int64", "numpy.int64", "'int64'", "'<i8'", "'=i8'")
+FLOAT64 = ("'f8'", "np.float64", "numpy.float64", "'float64'", "float", "'d'", "np.double")
+
+
+def _zeros(e):
+    """(size expr, dtype text) of np.zeros(n, dtype=...) / np.zeros(n, 'i8'), else None"""
+    if isinstance(e, ast.Call) and call_name(e) == "zeros" and e.args:
+        dt = kwarg(e, "dtype") or (e.args[1] if len(e.args) > 1 else None)
+        return e.args[0], norm(dt) if dt is not None else None
+    return None
+
+
+def _is_none(e):
+    return isinstance(e, ast.Constant) and e.value is None
+
+
+def _is_name(e, name):
+    return isinstance(e, ast.Name) and e.id == name
+
+
+# ---- R05.3 --------------------------------------------------------------------
 def abi(chk, repo, cfn):
     fmt, names = parse_tuple_binding(cfn)
     units = parse_tuple_format(fmt or "")
     chk.ob("R05.3", "chist::parse-format", units == ["O", "d", "O", "d", "O", "O"] and len(names) == 6, "esutil/stat/chist_pywrap.c", "PyArg_ParseTuple format %r binds %s" % (fmt, names))
     dh = repo.func(ST + "Binner._do_hist")
+    pe = repo.func(ST + "_dohist")
     chk.analysed_unit(dh.qualname)
-    calls = [x for x in walk_no_nested(dh.node) if isinstance(x, ast.Call) and dotted_name(x.func) == "_chist.chist"]
-    ok = len(calls) == 1 and [norm(a) for a in calls[0].args] == ["data", "dmin", "sortind", "bsize", "hist", "revind"] and not calls[0].keywords
-    chk.ob("R05.3", "Binner._do_hist::positional-call", ok, dh.where(), "chist(data, min, sort index, binsize, hist, rev) matches the parse order")
-    pc = [x for x in walk_no_nested(dh.node) if isinstance(x, ast.Call) and call_name(x) == "_dohist"]
-    ok = len(pc) == 1 and [norm(a) for a in pc[0].args] == ["data", "dmin", "sortind", "bsize", "hist"] and norm(kwarg(pc[0], "revind")) == "revind"
-    chk.ob("R05.3", "Binner._do_hist::python-engine-same-roles", ok, dh.where(), "the Python engine receives the same six values in the same roles")
+    paths = _paths(repo, dh, opaque=("_dohist",))
+    want = dh.params[1:5]                      # data, dmin, sortind, bsize: the values _do_hist was given
+    nbin_p = dh.params[5] if len(dh.params) > 5 else None
+    v_c, v_p, v_buf, v_size = [], [], [], []
+    seen = {"c": [], "py": []}
+    for st in paths or []:
+        if st.outcome == "raise":
+            continue
+        eng = []
+        for c in st.calls:
+            if c.name.split(".")[-1] == "chist" and "." in c.name:
+                eng.append(("c", c, dict(zip(pe.params, c.args)) if not c.kws and len(c.args) == 6 else None))
+            elif c.name == pe.name:
+                eng.append(("py", c, _bind(c, pe)))
+        if len(eng) != 1 or eng[0][1].in_loop:
+            v_c.append(None)
+            v_p.append(None)
+            continue
+        kind, c, b = eng[0]
+        seen[kind].append(norm(c.value))
+        if b is None:
+            v_c.append(False)                   # the C engine takes exactly six positional arguments (format "OdOdOO")
+            continue
+        roles = all(p in b for p in pe.params) and all(_is_name(b[p], w) for p, w in zip(pe.params[:4], want))
+        (v_c if kind == "c" else v_p).append(bool(roles))
+        if not all(p in b for p in pe.params[4:6]):
+            continue
+        h, r = _zeros(b[pe.params[4]]), (None if _is_none(b[pe.params[5]]) else _zeros(b[pe.params[5]]))
+        if h is None or (r is None and not _is_none(b[pe.params[5]])):
+            v_buf.append(None)
+            continue
+        v_buf.append(h[1] in INT64 and _is_name(h[0], nbin_p) and (r is None or r[1] in INT64))
+        if r is not None:
+            v_size.append(_same_size(r[0], ast.parse("%s.size + %s + 1" % (want[2], nbin_p), mode="eval").body))
+    chk.ob("R05.3", "Binner._do_hist::positional-call", _verdict(v_c), dh.where(), "chist(data, min, sort index, binsize, hist, rev) matches the parse order (%s)" % sorted(set(seen["c"])))
+    chk.ob("R05.3", "Binner._do_hist::python-engine-same-roles", _verdict(v_p), dh.where(), "the Python engine receives the same six values in the same roles (%s)" % sorted(set(seen["py"])))
     # element types read/written by the C engine
     casts = {}
     for x in cfront.walk(cfront.body_of(cfn)):
         if x.get("kind") == "CStyleCastExpr" and "*" in x.get("type", {}).get("qualType", ""):
             objs = {r.get("referencedDecl", {}).get("name") for r in cfront.walk(x) if r.get("kind") == "DeclRefExpr"} & set(names)
             for o in objs:
-                t = x["type"]["qualType"].replace(" ", "")
-                if t not in ("void*", "char*", "PyArrayObject*", "constPyArrayObject*"):
+                t = x["type"]["qualType"].replace("const", "").replace(" ", "")
+                if t not in ("void*", "char*", "PyArrayObject*"):
                     casts.setdefault(o, set()).add(t)
-    want = {names[0]: {"double*"}, names[2]: {"npy_int64*"}, names[4]: {"npy_int64*"}, names[5]: {"npy_int64*"}} if len(names) == 6 else {}
-    chk.ob("R05.3", "chist::element-casts", casts == want, "esutil/stat/chist_pywrap.c", "C reads data as double and sort index / hist / rev as 64-bit integers (%s)" % {k: sorted(v) for k, v in casts.items()})
-    # python-side dtype provenance at the allocation / conversion sites
-    cfg = cfg_of(dh)
-    z = {norm(a.targets[0]): norm(a.value) for a in walk_no_nested(dh.node) if isinstance(a, ast.Assign) and isinstance(a.value, ast.Call) and call_name(a.value) == "zeros"}
-    ok = z.get("hist") == "np.zeros(nbin, dtype='i8')" and z.get("revind") == "np.zeros(revsize, dtype='i8')"
-    chk.ob("R05.3", "Binner._do_hist::int64-out-buffers", ok, dh.where(), "hist and rev are allocated as int64 (%s)" % z)
-    rs = {norm(a.value) for a in walk_no_nested(dh.node) if isinstance(a, ast.Assign) and norm(a.targets[0]) == "revsize"}
-    chk.ob("R05.3", "Binner._do_hist::rev-size", rs == {"sortind.size + nbin + 1"}, dh.where(), "rev has nbin+1 offsets followed by one slot per sorted datum (%s)" % rs)
+    wantc = {names[0]: {"double*"}, names[2]: {"npy_int64*"}, names[4]: {"npy_int64*"}, names[5]: {"npy_int64*"}} if len(names) == 6 else {}
+    chk.ob("R05.3", "chist::element-casts", casts == wantc, "esutil/stat/chist_pywrap.c", "C reads data as double and sort index / hist / rev as 64-bit integers (%s)" % {k: sorted(v) for k, v in casts.items()})
+    # python-side dtype provenance of the buffers that reach the engines
+    chk.ob("R05.3", "Binner._do_hist::int64-out-buffers", _verdict(v_buf), dh.where(), "hist (nbin) and rev reach the engines as freshly zeroed int64 arrays")
+    chk.ob("R05.3", "Binner._do_hist::rev-size", _verdict(v_size), dh.where(), "rev has nbin+1 offsets followed by one slot per sorted datum")
     init = repo.func(ST + "Binner.__init__")
-    conv = {norm(a.targets[0]): norm(a.value) for a in walk_no_nested(init.node) if isinstance(a, ast.Assign)}
-    chk.ob("R05.3", "Binner.__init__::data-is-float64", conv.get("self.x") == "np.atleast_1d(x).astype(np.float64)", init.where(), "the binned data are converted to float64 (matches the C double read)")
+    conv = {norm(a.targets[0]): a.value for a in walk_no_nested(init.node) if isinstance(a, ast.Assign)}
+    b = pat.match("np.atleast_1d(_X).astype(_T)", conv.get("self.x")) or pat.match("np.asarray(_X, dtype=_T)", conv.get("self.x")) or \
+        pat.match("np.array(_X, dtype=_T, ndmin=1)", conv.get("self.x")) if "self.x" in conv else None
+    chk.ob("R05.3", "Binner.__init__::data-is-float64", bool(b) and norm(b["_T"]) in FLOAT64 and _is_name(b["_X"], init.params[1]), init.where(), "the binned data are converted to float64 (matches the C double read)")
     si = repo.func(ST + "Binner._get_sort_index")
     srt = [x for x in walk_no_nested(si.node) if isinstance(x, ast.Call) and call_name(x) == "argsort"]
-    ok = len(srt) == 1 and norm(srt[0].func.value) == "self.x" and kwarg(srt[0], "kind") is not None and norm(kwarg(srt[0], "kind")) in ("'stable'", "'mergesort'")
+    ok = len(srt) == 1 and _stable_argsort(srt[0])
     chk.ob("R05.4", "Binner._get_sort_index::stable-argsort", ok, si.where(), "the sort index is a stable argsort of the data (ties keep original order)")
     # the two callers of _do_hist pass float64 data and an int64 sort index
-    for q, want_args in ((ST + "Binner._hist_by_binsize_or_nbin", ["self.x", "self.dmin", "self['wsort']", "binsize", "nbin"]), (ST + "Binner._hist_by_num", ["f8ind", "0", "inds", "bsize", "nbin", "True"])):
-        fi = repo.func(q)
-        chk.analysed_unit(q)
-        c = [x for x in walk_no_nested(fi.node) if isinstance(x, ast.Call) and call_name(x) == "_do_hist"]
-        ok = len(c) == 1 and [norm(a) for a in c[0].args][:len(want_args)] == want_args
-        chk.ob("R05.3", q.split(".")[-1] + "::engine-arguments", ok, fi.where(), "engine called with (%s)" % ", ".join(want_args))
+    engine_callers(chk, repo, dh)
+
+
+def _stable_argsort(c):
+    """x.argsort(kind='stable') / np.argsort(x, kind='stable') of the binned data self.x"""
+    if not (isinstance(c, ast.Call) and call_name(c) == "argsort"):
+        return False
+    k = kwarg(c, "kind")
+    if k is None or norm(k) not in ("'stable'", "'mergesort'"):
+        return False
+    if isinstance(c.func, ast.Attribute) and norm(c.func.value) in ("np", "numpy"):
+        return len(c.args) == 1 and norm(c.args[0]) == "self.x"
+    return isinstance(c.func, ast.Attribute) and norm(c.func.value) == "self.x" and not c.args
+
+
+DERIVE_NBIN = ("np.int64((self.dmax - self.dmin) / _B) + 1", "int((self.dmax - self.dmin) / _B) + 1", "numpy.int64((self.dmax - self.dmin) / _B) + 1")
+DERIVE_BSIZE = ("float(self.dmax - self.dmin) / _N", "(self.dmax - self.dmin) / float(_N)", "np.float64(self.dmax - self.dmin) / _N")
+
+
+def engine_callers(chk, repo, dh):
+    # ---- the binsize / nbin histogram -------------------------------------------------
+    fi = repo.func(ST + "Binner._hist_by_binsize_or_nbin")
+    chk.analysed_unit(fi.qualname)
+    paths = _paths(repo, fi, opaque=("_do_hist", "_dohist"))
+    bs_p, nb_p = fi.params[1], fi.params[2]
+    v_args, v_nbin, v_bsize, v_store = [], [], [], []
+    shown = {}
+    for bs, nb in ((NOTNONE, NOTNONE), (NOTNONE, None), (None, NOTNONE)):
+        flags = {bs_p: bs, nb_p: nb}
+        sts = [st for st in paths or [] if st.outcome != "raise" and _consistent(st, flags)]
+        if not sts:
+            for v in (v_args, v_nbin, v_bsize, v_store):
+                v.append(None)
+        for st in sts:
+            cs = [c for c in st.calls if c.name == "self." + dh.name]
+            if len(cs) != 1 or cs[0].in_loop:
+                v_args.append(None)
+                continue
+            b = {k: _simp(v, flags) for k, v in _bind(cs[0], dh).items()}
+            d = dh.params
+            v_args.append(all(p in b for p in d[1:6]) and [norm(b[p]) for p in d[1:4]] == ["self.x", "self.dmin", "self['wsort']"] if all(p in b for p in d[1:6]) else None)
+            if not all(p in b for p in d[4:6]):
+                continue
+            bsz, nbn = b[d[4]], b[d[5]]
+            shown[(bs is None, nb is None)] = (norm(bsz), norm(nbn))
+            if bs is not None:
+                v_bsize.append(True if _is_name(bsz, bs_p) else None)
+                m = [pat.match(p, nbn) for p in DERIVE_NBIN]
+                v_nbin.append(True if any(x is not None and _is_name(x["_B"], bs_p) for x in m) else _derive_contra(nbn))
+            else:
+                v_nbin.append(True if _is_name(nbn, nb_p) else None)
+                m = [pat.match(p, bsz, commutative=False) for p in DERIVE_BSIZE]
+                v_bsize.append(True if any(x is not None and _is_name(x["_N"], nb_p) for x in m) else _derive_contra(bsz))
+            e = {k: _simp(v, flags) for k, v in st.env.items() if k.startswith("self[")}
+            call = cs[0].value
+            okst = "self['binsize']" in e and pat.same(e["self['binsize']"], bsz) and "self['nbin']" in e and pat.same(e["self['nbin']"], nbn) and \
+                "self['hist']" in e and pat.same(e["self['hist']"], ast.Subscript(value=call, slice=ast.Constant(value=0), ctx=ast.Load()))
+            if "self['rev']" in e:
+                okst = okst and pat.same(e["self['rev']"], ast.Subscript(value=call, slice=ast.Constant(value=1), ctx=ast.Load()))
+            v_store.append(bool(okst))
+    chk.ob("R05.3", "_hist_by_binsize_or_nbin::engine-arguments", _verdict(v_args), fi.where(), "engine called with (self.x, self.dmin, self['wsort'], binsize, nbin)")
+    chk.ob("R05.5", "derive::nbin-from-binsize", _verdict(v_nbin), fi.where(), "nbin = trunc((max-min)/binsize) + 1 (the largest datum maps to the last bin): %s" % (shown,))
+    chk.ob("R05.5", "derive::binsize-from-nbin", _verdict(v_bsize), fi.where(), "binsize = (max-min)/nbin: %s" % (shown,))
+    chk.ob("R05.5", "derive::results-stored", _verdict(v_store), fi.where(), "hist / rev / binsize / nbin are stored as computed")
+    # ---- the equal-occupancy histogram ---------------------------------------------------
+    fi = repo.func(ST + "Binner._hist_by_num")
+    chk.analysed_unit(fi.qualname)
+    paths = _paths(repo, fi, opaque=("_do_hist", "_dohist", "_merge_last"))
+    vs = []
+    for st in paths or []:
+        if st.outcome == "raise":
+            continue
+        cs = [c for c in st.calls if c.name == "self." + dh.name]
+        if len(cs) != 1 or cs[0].in_loop:
+            vs.append(None)
+            continue
+        b = _bind(cs[0], dh)
+        d = dh.params
+        if not all(p in b for p in d[1:7]):
+            vs.append(None)
+            continue
+        data, dmin, sidx, bsz, rev = b[d[1]], b[d[2]], b[d[3]], b[d[4]], b[d[6]]
+        m = pat.match("np.atleast_1d(_I).astype(_T)", data) or pat.match("_I.astype(_T)", data)
+        pos = pat.match("np.arange(self['wsort'].size)", sidx) is not None or pat.match("np.arange(len(self['wsort']))", sidx) is not None
+        if m is None or not pos:
+            vs.append(None)
+            continue
+        vs.append(norm(m["_T"]) in FLOAT64 and pat.same(m["_I"], sidx) and isinstance(dmin, ast.Constant) and dmin.value == 0 and type(dmin.value) in (int, float)
+                  and pat.match("float(%s)" % fi.params[1], bsz) is not None and isinstance(rev, ast.Constant) and rev.value is True)
+    chk.ob("R05.3", "_hist_by_num::engine-arguments", _verdict(vs), fi.where(), "engine called with (float64 positions 0..n-1, 0, the positions, float(nperbin), nbin, True)")
+
+
+def _derive_contra(e):
+    """the derived value is recognisably a bin count / bin size formula over the data range but not the required one: violated;
+    anything else: not recognised"""
+    t = norm(e)
+    return False if ("self.dmax" in t and "self.dmin" in t) else None
+
+
+# ---- R05.4 ----------------------------------------------------------------------
+def _is_sort_index(e):
+    """the stable sort index of the binned data: the argsort itself or the cell it is cached in"""
+    return e is not None and (_stable_argsort(e) or norm(e) in ("self.sort_index",))
+
+
+def _sorted_data(e, s):
+    """e is the data gathered in sorted order, self.x[S]"""
+    b = pat.match("self.x[_S]", e)
+    return b is not None and pat.same(b["_S"], s)
+
+
+def _data_extreme(e):
+    """('min'|'max'|'other') when e is the datum at a fixed position of the sorted data / a data extreme, else None"""
+    for p in ("self.x[_S[_K]]", "self.x[_S][_K]"):
+        b = pat.match(p, e)
+        if b is not None and _is_sort_index(b["_S"]):
+            k = const_value(b["_K"])
+            return {0: "min", -1: "max"}.get(k, "other") if isinstance(k, int) else None
+    for p, r in (("self.x.min()", "min"), ("self.x.max()", "max"), ("np.min(self.x)", "min"), ("np.max(self.x)", "max"), ("np.amin(self.x)", "min"), ("np.amax(self.x)", "max")):
+        if pat.match(p, e) is not None:
+            return r
+    return None
+
+
+def _conjuncts(m):
+    if isinstance(m, ast.BinOp) and isinstance(m.op, ast.BitAnd):
+        return _conjuncts(m.left) + _conjuncts(m.right)
+    if isinstance(m, ast.Call) and call_name(m) == "logical_and" and len(m.args) == 2 and not m.keywords:
+        return _conjuncts(m.args[0]) + _conjuncts(m.args[1])
+    return [m]
+
+
+def _bound(c, s):
+    """(side 'lo'|'hi', inclusive, bound expr, data in sorted order?) of one comparison between the data and a bound, else None"""
+    if not (isinstance(c, ast.Compare) and len(c.ops) == 1):
+        return None
+
+    def data(e):
+        return _sorted_data(e, s) or norm(e) == "self.x"
+    a, b, op = c.left, c.comparators[0], type(c.ops[0])
+    if data(b) and not data(a):
+        a, b = b, a
+        op = {ast.Lt: ast.Gt, ast.Gt: ast.Lt, ast.LtE: ast.GtE, ast.GtE: ast.LtE}.get(op, op)
+    if not data(a):
+        return None
+    if op in (ast.GtE, ast.Gt):
+        return "lo", op is ast.GtE, b, _sorted_data(a, s)
+    if op in (ast.LtE, ast.Lt):
+        return "hi", op is ast.LtE, b, _sorted_data(a, s)
+    return None
+
+
+def _selection(sel):
+    """the boolean mask behind an index expression: np.where(M)[0] / np.nonzero(M)[0] / np.flatnonzero(M) / M itself"""
+    for p in ("np.where(_M)[0]", "np.nonzero(_M)[0]", "np.flatnonzero(_M)", "_M.nonzero()[0]"):
+        b = pat.match(p, sel)
+        if b is not None:
+            return b["_M"]
+    if isinstance(sel, (ast.BinOp, ast.Compare)) or (isinstance(sel, ast.Call) and call_name(sel) == "logical_and"):
+        return sel
+    return None
+
+
+def _searchsorted(e, s):
+    """(bound, side) of X.searchsorted(b, side=...) / np.searchsorted(X, b, side=...) over the sorted data X, else None"""
+    if not (isinstance(e, ast.Call) and call_name(e) == "searchsorted" and isinstance(e.func, ast.Attribute)):
+        return None
+    args = list(e.args)
+    if norm(e.func.value) in ("np", "numpy"):
+        if not args or not _sorted_data(args[0], s):
+            return None
+        args = args[1:]
+    elif not _sorted_data(e.func.value, s):
+        return None
+    if not args:
+        return None
+    side = kwarg(e, "side") or (args[1] if len(args) > 1 else None)
+    side = const_value(side) if side is not None else "left"
+    return (args[0], side) if side in ("left", "right") else None
 
 
 def limits(chk, repo):
     fi = repo.func(ST + "Binner._get_minmax_and_indices")
     chk.analysed_unit(fi.qualname)
-    cfg = cfg_of(fi)
-    view = cfg.view()
-    wh = [n for n in cfg.nodes if n.kind == "stmt" and isinstance(n.ast, ast.Assign) and isinstance(n.ast.value, ast.Call) and call_name(n.ast.value) == "where"]
-    ok = len(wh) == 1 and norm(wh[0].ast.value.args[0]) == "(self.x[s] >= xmin) & (self.x[s] <= xmax)"
-    chk.ob("R05.4", "limits::inclusive-conjunction", ok, fi.where(), "data are kept when min <= x <= max, both inclusive, in sorted order (%s)" % (norm(wh[0].ast.value.args[0]) if wh else None))
-    ws = {(norm(n.ast.value), dict(rules.controlling_tests(view, n)).get("dowhere")) for n in cfg.nodes if n.kind == "stmt" and isinstance(n.ast, ast.Assign) and norm(n.ast.targets[0]) == "self['wsort']"}
-    chk.ob("R05.4", "limits::filtered-sort-index", ws == {("s[w]", "T"), ("s", "F")}, fi.where(), "the engine's sort index is the stable sort index restricted to the kept data (%s)" % sorted(ws, key=str))
-    env = {}
-    for n in cfg.nodes:
-        if n.kind == "stmt" and isinstance(n.ast, ast.Assign) and norm(n.ast.targets[0]) in ("xmin", "xmax"):
-            env.setdefault(norm(n.ast.targets[0]), set()).add(norm(n.ast.value))
-    chk.ob("R05.4", "limits::defaults-are-data-extremes", env == {"xmin": {"min", "self.x[s[0]]"}, "xmax": {"max", "self.x[s[-1]]"}}, fi.where(), "absent limits default to the smallest / largest datum (%s)" % env)
-    dm = {norm(n.ast.targets[0]): norm(n.ast.value) for n in cfg.nodes if n.kind == "stmt" and isinstance(n.ast, ast.Assign) and norm(n.ast.targets[0]) in ("self.dmin", "self.dmax")}
-    chk.ob("R05.4", "limits::engine-min-is-lower-limit", dm == {"self.dmin": "xmin", "self.dmax": "xmax"}, fi.where(), "the binning origin is the lower limit")
-    dw = {(norm(n.ast.value), tuple(sorted(dict(rules.controlling_tests(view, n)).items()))) for n in cfg.nodes if n.kind == "stmt" and isinstance(n.ast, ast.Assign) and norm(n.ast.targets[0]) == "dowhere"}
-    chk.ob("R05.4", "limits::filter-applied-when-a-limit-is-given", dw == {("False", ()), ("True", (("min is not None", "T"),)), ("True", (("max is not None", "T"),))}, fi.where(), "the filter runs whenever min or max is given")
+    paths = _paths(repo, fi)
+    lo_p, hi_p = ("min", "max") if "min" in fi.params and "max" in fi.params else tuple(fi.params[1:3])
+    v_incl, v_filt, v_def, v_org, v_appl = [], [], [], [], []
+    shown = set()
+    for lo in (None, NOTNONE):
+        for hi in (None, NOTNONE):
+            flags = {lo_p: lo, hi_p: hi}
+            sts = [st for st in paths or [] if st.outcome != "raise" and _consistent(st, flags)]
+            if not sts:
+                for v in (v_incl, v_filt, v_def, v_org, v_appl):
+                    v.append(None)
+            for st in sts:
+                env = st.env
+                # the binning origin / range handed to the engine
+                for given, cell, par, ext, vv in ((lo, "self.dmin", lo_p, "min", None), (hi, "self.dmax", hi_p, "max", None)):
+                    val = _simp(env.get(cell), flags)
+                    if val is None:
+                        (v_def if given is None else v_org).append(None)
+                    elif given is not None:
+                        v_org.append(True if _is_name(val, par) else (False if _data_extreme(val) else None))
+                    else:
+                        d = _data_extreme(val)
+                        v_def.append(True if d == ext else (False if d is not None or _is_name(val, lo_p) or _is_name(val, hi_p) else None))
+                w = _simp(env.get("self['wsort']"), flags)
+                shown.add(norm(w) if w is not None else "<unset>")
+                if w is None:
+                    v_filt.append(None)
+                    continue
+                if _is_sort_index(w):
+                    # unfiltered: only right when no limit was given
+                    v_appl.append(lo is None and hi is None)
+                    v_filt.append(True)
+                    continue
+                b = pat.match("_S[_SEL]", w)
+                if b is None or not _is_sort_index(b["_S"]):
+                    v_filt.append(None)
+                    continue
+                s, sel = b["_S"], b["_SEL"]
+                found = {"lo": [], "hi": []}           # side -> [(inclusive, bound)]
+                if isinstance(sel, ast.Slice):
+                    if sel.step is not None:
+                        v_filt.append(None)
+                        continue
+                    okk = True
+                    for side, e, whole in (("lo", sel.lower, lambda e: e is None or const_value(e) == 0), ("hi", sel.upper, lambda e: e is None or norm(e) in (norm(s) + ".size", "len(%s)" % norm(s), "self.x.size"))):
+                        if whole(e):
+                            continue
+                        ss = _searchsorted(e, s)
+                        if ss is None:
+                            okk = False
+                        else:
+                            found[side].append((ss[1] == ("left" if side == "lo" else "right"), ss[0]))
+                    if not okk:
+                        v_filt.append(None)
+                        continue
+                else:
+                    m = _selection(sel)
+                    cj = [_bound(c, s) for c in _conjuncts(m)] if m is not None else [None]
+                    if any(c is None for c in cj):
+                        v_filt.append(None)
+                        continue
+                    if not all(c[3] for c in cj):
+                        v_filt.append(False)        # a mask over the data in original order selects from the *sorted* index
+                        continue
+                    for side, inc, bd, _ in cj:
+                        found[side].append((inc, bd))
+                v_filt.append(True)
+                v_appl.append(True)
+                # every given limit is applied, inclusively, with the limit itself as bound; any other bound is an (inclusive) data extreme
+                for side, given, par, ext in (("lo", lo, lo_p, "min"), ("hi", hi, hi_p, "max")):
+                    loc, hit = [], False
+                    for inc, bd in found[side]:
+                        bd = _simp(bd, flags)
+                        if given is not None and _is_name(bd, par):
+                            hit = True
+                            loc.append(bool(inc))
+                        elif _data_extreme(bd) == ext:
+                            loc.append(bool(inc))          # a vacuous bound; an exclusive one would drop the extreme datum
+                        else:
+                            loc.append(None)
+                    if given is not None and not hit:
+                        loc.append(None if None in loc else False)      # the limit was given but is not applied
+                    v_incl.extend(loc or [True])
+    wh = fi.where()
+    chk.ob("R05.4", "limits::inclusive-conjunction", _verdict(v_incl), wh, "data are kept when min <= x <= max, both inclusive, in sorted order (%s)" % sorted(shown))
+    chk.ob("R05.4", "limits::filtered-sort-index", _verdict(v_filt), wh, "the engine's sort index is the stable sort index restricted to the kept data (%s)" % sorted(shown))
+    chk.ob("R05.4", "limits::defaults-are-data-extremes", _verdict(v_def), wh, "absent limits default to the smallest / largest datum")
+    chk.ob("R05.4", "limits::engine-min-is-lower-limit", _verdict(v_org), wh, "the binning origin is the lower limit")
+    chk.ob("R05.4", "limits::filter-applied-when-a-limit-is-given", _verdict(v_appl), wh, "the filter runs whenever min or max is given")
+
+
+# ---- R05.5 ------------------------------------------------------------------------
+OPTIONS = ("binsize", "nbin", "nperbin", "mergelast", "min", "max", "rev")
 
 
 def derivations(chk, repo):
-    fi = repo.func(ST + "Binner._hist_by_binsize_or_nbin")
-    cfg = cfg_of(fi)
-    view = cfg.view()
-    d = {}
-    for n in cfg.nodes:
-        if n.kind == "stmt" and isinstance(n.ast, ast.Assign) and norm(n.ast.targets[0]) in ("nbin", "binsize"):
-            d[norm(n.ast.targets[0])] = (norm(n.ast.value), rules.controlling_tests(view, n)[:1])
-    ok = d.get("nbin") == ("np.int64((self.dmax - self.dmin) / binsize) + 1", [("binsize is not None", "T")])
-    chk.ob("R05.5", "derive::nbin-from-binsize", ok, fi.where(), "nbin = trunc((max-min)/binsize) + 1 (the largest datum maps to the last bin): %s" % (d.get("nbin"),))
-    ok = d.get("binsize") == ("float(self.dmax - self.dmin) / nbin", [("nbin is not None", "T")])
-    chk.ob("R05.5", "derive::binsize-from-nbin", ok, fi.where(), "binsize = (max-min)/nbin: %s" % (d.get("binsize"),))
-    st = {norm(a.targets[0]): norm(a.value) for a in walk_no_nested(fi.node) if isinstance(a, ast.Assign) and norm(a.targets[0]).startswith("self[")}
-    chk.ob("R05.5", "derive::results-stored", st.get("self['hist']") == "h" and st.get("self['rev']") == "r" and st.get("self['binsize']") == "binsize" and st.get("self['nbin']") == "nbin", fi.where(), "hist / rev / binsize / nbin are stored as computed")
     h = repo.func(ST + "histogram")
     chk.analysed_unit(h.qualname)
     cfg = cfg_of(h)
@@ -230,15 +1771,19 @@ def derivations(chk, repo):
     b = [x for x in walk_no_nested(h.node) if isinstance(x, ast.Call) and call_name(x) == "Binner"]
     ok = len(b) == 1 and [norm(a) for a in b[0].args] == ["data"] and norm(kwarg(b[0], "weights")) == "weights"
     chk.ob("R05.5", "histogram::binner-of-data", ok, h.where(), "histogram builds Binner(data, weights=weights)")
+    dh = repo.func(ST + "Binner.dohist")
     dc = [x for x in walk_no_nested(h.node) if isinstance(x, ast.Call) and call_name(x) == "dohist"]
-    ok = len(dc) == 1 and all(k.arg and norm(k.value) == k.arg for k in dc[0].keywords) and {k.arg for k in dc[0].keywords} == {"binsize", "nbin", "nperbin", "mergelast", "min", "max", "rev"}
+    ok = False
+    if len(dc) == 1 and not any(isinstance(a, ast.Starred) for a in dc[0].args):
+        bound = dict(zip(dh.params[1:], dc[0].args))
+        bound.update({k.arg: k.value for k in dc[0].keywords if k.arg})
+        ok = all(o in bound and _is_name(bound[o], o) for o in OPTIONS)
     chk.ob("R05.5", "histogram::options-forwarded", ok, h.where(), "every binning option is forwarded under its own name")
     rets = {norm(n.ast.value): dict(rules.controlling_tests(view, n, skip_reject_guards=False)) for n in rules.return_nodes(cfg)}
     ok = rets.get("(b['hist'], b['rev'])", {}).get("rev") == "T" and rets.get("b['hist']", {}).get("rev") == "F" and "b" in rets
     chk.ob("R05.5", "histogram::returns", ok, h.where(), "returns hist (and rev when asked), or the Binner when more statistics are requested (%s)" % {k: v for k, v in rets.items()})
     pre = {(norm(n.ast), tuple(rules.controlling_tests(view, n)[:1])) for n in cfg.nodes if n.kind == "stmt" and isinstance(n.ast, ast.Assign) and norm(n.ast.targets[0]) in ("binsize", "rev")}
     chk.ob("R05.5", "histogram::nbin-overrides-binsize", ("binsize = None", (("nbin is not None", "T"),)) in pre and ("rev = True", (("more", "T"),)) in pre, h.where(), "nbin overrides binsize; more=True implies reverse indices")
-    dh = repo.func(ST + "Binner.dohist")
     chk.analysed_unit(dh.qualname)
     cfg = cfg_of(dh)
     view = cfg.view()
